@@ -313,6 +313,8 @@ struct Fixtures {
     edge_ee_der: Vec<u8>,
     att_single: Vec<u8>,
     att_multi: Vec<u8>,
+    /// EE under the pool CA with one covering block per family (objects of the time space)
+    tm_ee_der: Vec<u8>,
 }
 
 fn t0() -> Time { pki::time(pki::T0) }
@@ -573,6 +575,8 @@ fn build_env(thorough: bool) -> Env {
         ee_cert_der: ee_der.clone(), ee_inherit_der: ee_inh_der, ee_as_der, id_ee_der, id_tbs, sig_crl_tbs,
         prov_xml, roa_econtent, mft_econtent, aspa_econtent,
         ca_cert_der: ca_der.clone(), ca_crl_der: crl_der.clone(), edge_ee_der: Vec::new(), att_single: att_single.clone(), att_multi: Vec::new(),
+        tm_ee_der: pki::build_cert_der(&signer, &spec_with(Spec::issued(pki::Kind::Ee, 2, 1, ca.subject_key_identifier(),
+            Res { v4: Claim::Blocks(vec![(0x0a00_0000, 0x0aff_ffff)]), v6: Claim::Blocks(vec![(0x2001_0db8u128 << 96, (0x2001_0db8u128 << 96) | ((1u128 << 96) - 1))]), asn: Claim::Blocks(vec![(64496, 64496)]) }, Overclaim::Refuse), 401)),
     };
     seeds.push(Seed::new("fresh/e5.roa", Kind::Roa, e5_signed_object(&signer, der::OID_CT_ROA, &fx.roa_econtent, &fx.ee_cert_der, 2, vec![], true), true));
     seeds.push(Seed::new("fresh/e5.mft", Kind::Mft, e5_signed_object(&signer, der::OID_CT_MANIFEST, &fx.mft_econtent, &fx.ee_inherit_der, 2, vec![], true), true));
@@ -1767,14 +1771,14 @@ fn run_case(env: &Env, ep: Ep, bytes: &[u8], do_sweep: bool) -> CaseOut {
 //============ case enumeration (pure functions of seed and index) ==================
 
 #[derive(Clone, Copy, Debug, PartialEq, Eq, Hash, PartialOrd, Ord)]
-enum SpaceId { B0, B1, B2P, B2L, Str, Rs, SelfTest, Own, Scale }
+enum SpaceId { B0, B1, B2P, B2L, Str, Rs, SelfTest, Own, Scale, Time, RtaMx, Seq }
 
 impl SpaceId {
     fn code(self) -> &'static str {
-        match self { SpaceId::B0 => "b0", SpaceId::B1 => "b1", SpaceId::B2P => "b2p", SpaceId::B2L => "b2l", SpaceId::Str => "str", SpaceId::Rs => "rs", SpaceId::SelfTest => "self", SpaceId::Own => "own", SpaceId::Scale => "sc" }
+        match self { SpaceId::B0 => "b0", SpaceId::B1 => "b1", SpaceId::B2P => "b2p", SpaceId::B2L => "b2l", SpaceId::Str => "str", SpaceId::Rs => "rs", SpaceId::SelfTest => "self", SpaceId::Own => "own", SpaceId::Scale => "sc", SpaceId::Time => "time", SpaceId::RtaMx => "rtamx", SpaceId::Seq => "seq" }
     }
     fn parse(s: &str) -> Option<SpaceId> {
-        [SpaceId::B0, SpaceId::B1, SpaceId::B2P, SpaceId::B2L, SpaceId::Str, SpaceId::Rs, SpaceId::SelfTest, SpaceId::Own, SpaceId::Scale].into_iter().find(|x| x.code() == s)
+        [SpaceId::B0, SpaceId::B1, SpaceId::B2P, SpaceId::B2L, SpaceId::Str, SpaceId::Rs, SpaceId::SelfTest, SpaceId::Own, SpaceId::Scale, SpaceId::Time, SpaceId::RtaMx, SpaceId::Seq].into_iter().find(|x| x.code() == s)
     }
 }
 
@@ -1882,6 +1886,1155 @@ fn fnv64(b: &[u8]) -> u64 {
     h
 }
 
+//============ the time clause: growth of CPU time with the size of crafted objects ==
+
+/// A measured operation may cost this much more than linear growth predicts
+/// (and this much more than the same-size control) before it is reported.
+const TM_MARGIN_NS: u64 = 200_000_000;
+/// `t(4n) > TM_GROWTH * t(n)` (scaled if the sizes are not exactly 1:4) is "well above linear".
+const TM_GROWTH: u64 = 10;
+/// `t_crafted(n) > TM_VS_CONTROL * t_control(n)`.
+const TM_VS_CONTROL: u64 = 20;
+
+/// CPU time consumed by the calling thread so far (not wall time: a busy machine cannot inflate it).
+fn cpu_ns() -> u64 {
+    let mut ts = libc::timespec { tv_sec: 0, tv_nsec: 0 };
+    unsafe { libc::clock_gettime(libc::CLOCK_THREAD_CPUTIME_ID, &mut ts); }
+    ts.tv_sec as u64 * 1_000_000_000 + ts.tv_nsec as u64
+}
+
+type TmOps = Vec<(&'static str, Result<u64, String>)>;
+
+/// Best CPU time of up to three runs (one run only if it takes more than 20 ms).
+fn tm_measure(out: &mut TmOps, name: &'static str, mut f: impl FnMut()) {
+    let mut best = u64::MAX;
+    for _ in 0..3 {
+        let a = cpu_ns();
+        if let Err(p) = guard(&mut f) { out.push((name, Err(p))); return }
+        let d = cpu_ns().saturating_sub(a);
+        best = best.min(d);
+        if d > 20_000_000 { break }
+    }
+    out.push((name, Ok(best)));
+}
+
+#[derive(Clone, Copy, Debug, PartialEq, Eq)]
+enum Fam { V4, V6, As }
+impl Fam { fn name(self) -> &'static str { match self { Fam::V4 => "v4", Fam::V6 => "v6", Fam::As => "as" } } }
+
+/// The order (and relation) of the n blocks of a list. `Asc` is the ordinary object.
+#[derive(Clone, Copy, Debug, PartialEq, Eq)]
+enum Order { Asc, Desc, TwoRuns, Zigzag, HighFirst, Stride, AdjacentDesc, OverlapDesc }
+const ORDERS_CRAFTED: [Order; 7] = [Order::Desc, Order::TwoRuns, Order::Zigzag, Order::HighFirst, Order::Stride, Order::AdjacentDesc, Order::OverlapDesc];
+impl Order {
+    fn name(self) -> &'static str {
+        match self { Order::Asc => "ascending", Order::Desc => "descending", Order::TwoRuns => "even-then-odd", Order::Zigzag => "zigzag-low-high",
+            Order::HighFirst => "highest-first-then-ascending", Order::Stride => "stride-permutation", Order::AdjacentDesc => "adjacent-descending", Order::OverlapDesc => "overlapping-descending" }
+    }
+    /// position -> rank of the block that stands there
+    fn perm(self, n: usize) -> Vec<usize> {
+        match self {
+            Order::Asc => (0..n).collect(),
+            Order::Desc | Order::AdjacentDesc | Order::OverlapDesc => (0..n).rev().collect(),
+            Order::TwoRuns => (0..n).step_by(2).chain((1..n).step_by(2)).collect(),
+            Order::Zigzag => (0..n).map(|i| if i % 2 == 0 { i / 2 } else { n - 1 - i / 2 }).collect(),
+            Order::HighFirst => std::iter::once(n - 1).chain(0..n - 1).collect(),
+            Order::Stride => { let k = 7919 % n.max(2); let k = if gcd(k, n) == 1 { k } else { 1 }; (0..n).map(|i| (i * k + n / 3) % n).collect() }
+        }
+    }
+    /// (distance between the starts of neighbouring blocks, size of a block) in units of one block
+    fn geometry(self) -> (u128, u128) { match self { Order::AdjacentDesc => (1, 1), Order::OverlapDesc => (1, 2), _ => (2, 1) } }
+}
+fn gcd(a: usize, b: usize) -> usize { if b == 0 { a } else { gcd(b, a % b) } }
+
+/// The block of rank `r` as inclusive (min, max) in family-width integers.
+fn tm_block(fam: Fam, order: Order, r: usize) -> (u128, u128) {
+    let (stride, size) = order.geometry();
+    let r = r as u128;
+    match fam {
+        Fam::V4 => { let lo = 0x0a00_0000u128 + ((r * stride) << 8); (lo, lo + (size << 8) - 1) }              // /24s in 10.0.0.0/8
+        Fam::V6 => { let lo = (0x2001_0db8u128 << 96) + ((r * stride) << 72); (lo, lo + (size << 72) - 1) }    // /56s in 2001:db8::/32
+        Fam::As => { let lo = 100_000 + r * stride * 4; (lo, lo + size * 4 - 1) }
+    }
+}
+fn tm_block_der(fam: Fam, (lo, hi): (u128, u128), size: u128) -> Vec<u8> {
+    match fam {
+        Fam::V4 => if size == 1 { der::ip_prefix_bits(lo, 24, 32) } else { der::ip_range(lo, hi, 32) },
+        Fam::V6 => if size == 1 { der::ip_prefix_bits(lo, 56, 128) } else { der::ip_range(lo, hi, 128) },
+        Fam::As => der::seq(&[der::int_u(lo), der::int_u(hi)]),
+    }
+}
+fn tm_block_text(fam: Fam, (lo, hi): (u128, u128), size: u128, out: &mut String) {
+    use std::fmt::Write as _;
+    match fam {
+        Fam::V4 => { let a = std::net::Ipv4Addr::from(lo as u32); if size == 1 { let _ = write!(out, "{a}/24"); } else { let _ = write!(out, "{a}-{}", std::net::Ipv4Addr::from(hi as u32)); } }
+        Fam::V6 => { let a = std::net::Ipv6Addr::from(lo); if size == 1 { let _ = write!(out, "{a}/56"); } else { let _ = write!(out, "{a}-{}", std::net::Ipv6Addr::from(hi)); } }
+        Fam::As => { let _ = write!(out, "AS{lo}-AS{hi}"); }
+    }
+}
+fn tm_blocks_der(fam: Fam, order: Order, n: usize) -> Vec<u8> {
+    let size = order.geometry().1;
+    der::seq(&order.perm(n).into_iter().map(|r| tm_block_der(fam, tm_block(fam, order, r), size)).collect::<Vec<_>>())
+}
+fn tm_blocks_text(fam: Fam, order: Order, n: usize) -> String {
+    let size = order.geometry().1;
+    let mut s = String::with_capacity(n * 24);
+    for (i, r) in order.perm(n).into_iter().enumerate() { if i > 0 { s.push_str(", ") } tm_block_text(fam, tm_block(fam, order, r), size, &mut s) }
+    s
+}
+fn tm_ip_vec(fam: Fam, order: Order, n: usize) -> Vec<IpBlock> {
+    use rpki::repository::resources::Addr;
+    order.perm(n).into_iter().map(|r| { let (lo, hi) = tm_block(fam, order, r);
+        if fam == Fam::V4 { IpBlock::from((pki::v4_addr(lo), Addr::from_bits((hi << 96) | ((1u128 << 96) - 1)))) } else { IpBlock::from((pki::v6_addr(lo), pki::v6_addr(hi))) } }).collect()
+}
+fn tm_as_vec(order: Order, n: usize) -> Vec<rpki::repository::resources::AsBlock> {
+    order.perm(n).into_iter().map(|r| { let (lo, hi) = tm_block(Fam::As, order, r); rpki::repository::resources::AsBlock::from((Asn::from_u32(lo as u32), Asn::from_u32(hi as u32))) }).collect()
+}
+
+/// Rebuilds a DER value, replacing every node for which `f` returns a new TLV (lengths of the ancestors follow).
+fn der_rebuild(buf: &[u8], node: &der::Node, f: &dyn Fn(&der::Node) -> Option<Vec<u8>>) -> Vec<u8> {
+    if let Some(r) = f(node) { return r }
+    if node.children.is_empty() { return node.whole(buf).to_vec() }
+    let content: Vec<u8> = node.children.iter().flat_map(|c| der_rebuild(buf, c, f)).collect();
+    der::tlv(buf[node.start], &content)
+}
+/// Replaces the value of the extension with the given OID content octets.
+fn der_replace_ext(tbs: &[u8], oid_content: &[u8], body: &[u8]) -> Vec<u8> {
+    let root = der::parse_one(tbs, false).expect("well-formed TBS");
+    der_rebuild(tbs, &root, &|n: &der::Node| {
+        if n.tag != 0x30 || n.children.len() < 2 || n.children[0].tag != 0x06 || n.children[0].content(tbs) != oid_content { return None }
+        let mut parts: Vec<Vec<u8>> = n.children[..n.children.len() - 1].iter().map(|c| c.whole(tbs).to_vec()).collect();
+        parts.push(der::octets(body));
+        Some(der::seq(&parts))
+    })
+}
+const OID_IP_BLOCKS: &[u8] = &[0x2b, 0x06, 0x01, 0x05, 0x05, 0x07, 0x01, 0x07];
+const OID_AS_IDS: &[u8] = &[0x2b, 0x06, 0x01, 0x05, 0x05, 0x07, 0x01, 0x08];
+
+/// A certificate whose three resource extensions list n blocks each in the given order
+/// (subject key 3; issued by the fresh TA as a CA certificate, or by the fresh CA as an EE certificate).
+fn tm_cert(env: &Env, order: Order, n: usize, ee: bool, fams: &[Fam]) -> Vec<u8> {
+    let s = &env.signer;
+    let small = Res { v4: Claim::Blocks(vec![(0x0a00_0000, 0x0a00_00ff)]), v6: Claim::Blocks(vec![(0x2001_0db8u128 << 96, (0x2001_0db8u128 << 96) | 0xff)]), asn: Claim::Blocks(vec![(100_000, 100_000)]) };
+    let spec = if ee { spec_with(Spec::issued(pki::Kind::Ee, 2, 1, s.ski(1), small, Overclaim::Refuse), 7000 + n as u128) }
+               else { spec_with(Spec::issued(pki::Kind::Ca, 3, 0, s.ski(0), small, Overclaim::Refuse), 7000 + n as u128) };
+    let tbs = bcder::Captured::from_values(Mode::Der, pki::build_tbs(s, &spec, None).encode_ref()).as_slice().to_vec();
+    let fam_body = |fam: Fam| der::seq(&[der::octets(if fam == Fam::V4 { &[0, 1] } else { &[0, 2] }), if fams.contains(&fam) { tm_blocks_der(fam, order, n) } else { tm_blocks_der(fam, Order::Asc, 1) }]);
+    let ip = der::seq(&[fam_body(Fam::V4), fam_body(Fam::V6)]);
+    let asn = der::seq(&[der::ctx(0, true, &if fams.contains(&Fam::As) { tm_blocks_der(Fam::As, order, n) } else if ee { der::seq(&[der::int_u(64496)]) } else { tm_blocks_der(Fam::As, Order::Asc, 1) })]);
+    let tbs = der_replace_ext(&der_replace_ext(&tbs, OID_IP_BLOCKS, &ip), OID_AS_IDS, &asn);
+    pki::sign_tbs(s, if ee { 1 } else { 0 }, &tbs)
+}
+
+/// RTA attestation content with n blocks per family in the given order (independent encoder).
+fn tm_attestation(env: &Env, order: Order, n: usize) -> Vec<u8> {
+    let fam = |f: Fam| der::seq(&[der::octets(if f == Fam::V4 { &[0, 1] } else { &[0, 2] }), tm_blocks_der(f, order, n)]);
+    der::seq(&[
+        der::set_of(&[der::octets(env.signer.ski(2).as_slice())]),
+        der::seq(&[der::ctx(0, true, &tm_blocks_der(Fam::As, order, n)), der::ctx(1, true, &der::seq(&[fam(Fam::V4), fam(Fam::V6)]))]),
+        der::alg_sha256(false),
+        der::octets(&signer::sha256(b"attested document")),
+    ])
+}
+
+/// A CRL (issuer key 1, signature not computed: decoding does not look at it) listing the given serial numbers.
+fn tm_crl(env: &Env, serials: &[[u8; 20]]) -> Vec<u8> {
+    let s = &env.signer;
+    let name = der::seq(&[der::set_unsorted(&[der::seq(&[der::oid(&[2, 5, 4, 3]), der::printable(&hex(s.ski(1).as_slice()))])])]);
+    let date = der::utctime(civil(2023, 11, 1));
+    let entries: Vec<Vec<u8>> = serials.iter().map(|x| der::seq(&[der::int_bytes(x), date.clone()])).collect();
+    let exts = der::ctx(0, true, &der::seq(&[
+        der::seq(&[der::oid(&[2, 5, 29, 35]), der::octets(&der::seq(&[der::ctx(0, false, s.ski(1).as_slice())]))]),
+        der::seq(&[der::oid(&[2, 5, 29, 20]), der::octets(&der::int_u(7))]),
+    ]));
+    let tbs = der::seq(&[der::int_u(1), der::alg_sha256_with_rsa(), name, der::utctime(civil(2023, 11, 13)), der::gentime(civil(2123, 11, 14)), der::seq(&entries), exts]);
+    sign_wrap(s, 1, &tbs, false)
+}
+
+/// Serial number k of a family: `Window(off, fill)` = 20 octets, all `fill` except octet 0 (= 01)
+/// and a four-octet counter at `off`; `Ordinary` = the first 20 octets of SHA-256(k), made positive.
+#[derive(Clone, Copy, Debug, PartialEq, Eq)]
+enum SerialFam { Ordinary, Window(usize, u8) }
+fn tm_serial(f: SerialFam, k: u32) -> [u8; 20] {
+    let mut s = [0u8; 20];
+    match f {
+        SerialFam::Ordinary => { s.copy_from_slice(&signer::sha256(&k.to_be_bytes())[..20]); s[0] = (s[0] & 0x3f) | 0x40; }
+        SerialFam::Window(off, fill) => { s = [fill; 20]; s[0] = 1; s[off..off + 4].copy_from_slice(&k.to_be_bytes()); }
+    }
+    s
+}
+
+#[derive(Clone, Copy, Debug, PartialEq, Eq)]
+enum Route { Text, Der, FromIter, Builder, Serde }
+const ROUTES: [Route; 5] = [Route::Text, Route::Der, Route::FromIter, Route::Builder, Route::Serde];
+impl Route { fn name(self) -> &'static str { match self { Route::Text => "from_str", Route::Der => "take_from", Route::FromIter => "from_iter", Route::Builder => "builder", Route::Serde => "deserialize" } } }
+
+/// Relation between the two operands of a set operation (n blocks each).
+#[derive(Clone, Copy, Debug, PartialEq, Eq)]
+enum Rel { Halves, Interleaved, Identical, Nested, OneCovering }
+impl Rel { fn name(self) -> &'static str { match self { Rel::Halves => "disjoint-halves", Rel::Interleaved => "interleaved", Rel::Identical => "identical", Rel::Nested => "b-inside-every-block-of-a", Rel::OneCovering => "b-is-one-covering-block" } } }
+
+#[derive(Clone, Copy, Debug, PartialEq, Eq)]
+enum MftShape { Ordinary, CommonPrefix, CommonSuffix, SameNames, SameHashes }
+#[derive(Clone, Copy, Debug, PartialEq, Eq)]
+enum AspaShape { Ordinary, Shift16, Shift8, Consecutive, Descending, LowWindow }
+#[derive(Clone, Copy, Debug, PartialEq, Eq)]
+enum RoaShape { Ordinary, Desc, Zigzag, Same, SameAddrAllLengths, UnderManyBlocks }
+
+#[derive(Clone, Copy, Debug, PartialEq, Eq)]
+enum TmCase {
+    Blocks(Fam, Route, Order),
+    SetText(Order),
+    SetOps(Fam, Rel),
+    Cert(Order), Rta(Order),
+    Crl(SerialFam),
+    Mft(MftShape), Aspa(AspaShape), Roa(Fam, RoaShape),
+}
+
+impl TmCase {
+    fn ep(self) -> Ep {
+        match self {
+            TmCase::Blocks(Fam::As, ..) | TmCase::SetText(_) | TmCase::SetOps(Fam::As, _) => Ep::AsText,
+            TmCase::Blocks(..) | TmCase::SetOps(..) => Ep::IpText,
+            TmCase::Cert(_) => Ep::Cert, TmCase::Rta(_) => Ep::RtaS, TmCase::Crl(_) => Ep::Crl,
+            TmCase::Mft(_) => Ep::MftS, TmCase::Aspa(_) => Ep::AspaS, TmCase::Roa(..) => Ep::RoaS,
+        }
+    }
+    fn desc(self) -> String {
+        match self {
+            TmCase::Blocks(f, r, o) => format!("blocks/{}/{}/{}", f.name(), r.name(), o.name()),
+            TmCase::SetText(o) => format!("blocks/all-families/ResourceSet::from_strs/{}", o.name()),
+            TmCase::SetOps(f, r) => format!("setops/{}/{}", f.name(), r.name()),
+            TmCase::Cert(o) => format!("cert/three-extensions/{}", o.name()),
+            TmCase::Rta(o) => format!("rta/attested-resources/{}", o.name()),
+            TmCase::Crl(SerialFam::Window(off, fill)) => format!("crl/serials-equal-but-octets-{}..{}/fill-{:02x}", off, off + 4, fill),
+            TmCase::Crl(SerialFam::Ordinary) => "crl/ordinary".into(),
+            TmCase::Mft(s) => format!("mft/{s:?}"),
+            TmCase::Aspa(s) => format!("aspa/{s:?}"),
+            TmCase::Roa(f, s) => format!("roa/{}/{s:?}", f.name()),
+        }
+    }
+    /// The ordinary object the crafted one is compared with.
+    fn control(self) -> TmCase {
+        match self {
+            TmCase::Blocks(f, r, _) => TmCase::Blocks(f, r, Order::Asc),
+            TmCase::SetText(_) => TmCase::SetText(Order::Asc),
+            TmCase::SetOps(f, _) => TmCase::SetOps(f, Rel::Halves),
+            TmCase::Cert(_) => TmCase::Cert(Order::Asc), TmCase::Rta(_) => TmCase::Rta(Order::Asc),
+            TmCase::Crl(_) => TmCase::Crl(SerialFam::Ordinary),
+            TmCase::Mft(_) => TmCase::Mft(MftShape::Ordinary), TmCase::Aspa(_) => TmCase::Aspa(AspaShape::Ordinary),
+            TmCase::Roa(f, _) => TmCase::Roa(f, RoaShape::Ordinary),
+        }
+    }
+    fn sizes(self, thorough: bool) -> Vec<usize> {
+        match self {
+            TmCase::Crl(_) => if thorough { vec![1024, 4096, 16384, 65536, 262144] } else { vec![1024, 4096, 16384, 65536] },
+            TmCase::Aspa(_) => vec![1023, 4095, 16380],
+            TmCase::Roa(_, RoaShape::UnderManyBlocks) => vec![1024, 4096, 16384, 32768],
+            TmCase::Roa(..) => vec![1024, 4096, 16384],
+            _ => if thorough { vec![1024, 4096, 16384, 65536] } else { vec![1024, 4096, 16384] },
+        }
+    }
+}
+
+/// All crafted cases, in a fixed order.
+fn tm_cases() -> Vec<TmCase> {
+    let mut v = Vec::new();
+    for fam in [Fam::V4, Fam::V6, Fam::As] { for r in ROUTES { for o in ORDERS_CRAFTED { v.push(TmCase::Blocks(fam, r, o)) } } }
+    for o in ORDERS_CRAFTED { v.push(TmCase::SetText(o)); v.push(TmCase::Cert(o)); v.push(TmCase::Rta(o)) }
+    for fam in [Fam::V4, Fam::V6, Fam::As] { for r in [Rel::Interleaved, Rel::Identical, Rel::Nested, Rel::OneCovering] { v.push(TmCase::SetOps(fam, r)) } }
+    for off in [1usize, 4, 8, 12, 16] { for fill in [0x00u8, 0xa5] { v.push(TmCase::Crl(SerialFam::Window(off, fill))) } }
+    for s in [MftShape::CommonPrefix, MftShape::CommonSuffix, MftShape::SameNames, MftShape::SameHashes] { v.push(TmCase::Mft(s)) }
+    for s in [AspaShape::Shift16, AspaShape::Shift8, AspaShape::Consecutive, AspaShape::Descending, AspaShape::LowWindow] { v.push(TmCase::Aspa(s)) }
+    for f in [Fam::V4, Fam::V6] { for s in [RoaShape::Desc, RoaShape::Zigzag, RoaShape::Same, RoaShape::SameAddrAllLengths, RoaShape::UnderManyBlocks] { v.push(TmCase::Roa(f, s)) } }
+    v
+}
+
+/// Builds the object of size n and measures decode and every accessor. The first entry is
+/// always the decode; `Ok(false)` = the decoder rejected the object (only the decode was measured).
+fn tm_run(env: &Env, case: TmCase, n: usize) -> (TmOps, bool) {
+    let mut ops: TmOps = Vec::new();
+    let t0v = t0();
+    macro_rules! timed_decode {
+        ($name:expr, $e:expr) => {{
+            let mut last = None;
+            tm_measure(&mut ops, $name, || { last = Some($e); });
+            match last { Some(Ok(v)) => v, _ => return (ops, false) }
+        }};
+    }
+    fn ip_accessors(ops: &mut TmOps, b: &IpBlocks, v4: bool) {
+        tm_measure(ops, "IpBlocks::iter", || { std::hint::black_box(b.iter().map(|x| x.min().to_bits() ^ x.max().to_bits()).fold(0u128, |a, x| a ^ x)); });
+        tm_measure(ops, "IpBlocks Display", || { std::hint::black_box(if v4 { b.as_v4().to_string() } else { b.as_v6().to_string() }.len()); });
+        tm_measure(ops, "IpBlocks::encode_ref", || { std::hint::black_box(b.encode_ref().to_captured(Mode::Der).len()); });
+        tm_measure(ops, "IpBlocks::contains(self)", || { std::hint::black_box(b.contains(b)); });
+        tm_measure(ops, "IpBlocks::union(self)", || { std::hint::black_box(b.union(b).is_empty()); });
+        tm_measure(ops, "IpBlocks::difference(self)", || { std::hint::black_box(b.difference(b).is_empty()); });
+    }
+    fn as_accessors(ops: &mut TmOps, b: &AsBlocks) {
+        tm_measure(ops, "AsBlocks::iter", || { std::hint::black_box(b.iter().map(|x| x.min().into_u32() ^ x.max().into_u32()).fold(0u32, |a, x| a ^ x)); });
+        tm_measure(ops, "AsBlocks Display", || { std::hint::black_box(b.to_string().len()); });
+        tm_measure(ops, "AsBlocks::encode_ref", || { std::hint::black_box(b.encode_ref().to_captured(Mode::Der).len()); });
+        tm_measure(ops, "AsBlocks::asn_count", || { std::hint::black_box(b.asn_count()); });
+        tm_measure(ops, "AsBlocks::contains(self)", || { std::hint::black_box(b.contains(b)); });
+        tm_measure(ops, "AsBlocks::union(self)", || { std::hint::black_box(b.union(b).is_empty()); });
+        tm_measure(ops, "AsBlocks::difference(self)", || { std::hint::black_box(b.difference(b).is_empty()); });
+    }
+    match case {
+        TmCase::Blocks(fam, route, order) => {
+            use rpki::repository::resources::{AddressFamily, AsBlocksBuilder, IpBlocksBuilder};
+            if fam == Fam::As {
+                let b: AsBlocks = match route {
+                    Route::Text => { let t = tm_blocks_text(fam, order, n); timed_decode!("AsBlocks::from_str", AsBlocks::from_str(&t).map_err(|e| e.to_string())) }
+                    Route::Serde => { let t = format!("\"{}\"", tm_blocks_text(fam, order, n)); timed_decode!("AsBlocks::deserialize", serde_json::from_str::<AsBlocks>(&t).map_err(|e| e.to_string())) }
+                    Route::Der => { let d = tm_blocks_der(fam, order, n); timed_decode!("AsBlocks::take_from", Mode::Der.decode(d.as_slice(), |c| AsBlocks::take_from(c)).map_err(|e| e.to_string())) }
+                    Route::FromIter => { let v = tm_as_vec(order, n); timed_decode!("AsBlocks::from_iter", Ok::<_, String>(v.iter().copied().collect::<AsBlocks>())) }
+                    Route::Builder => { let v = tm_as_vec(order, n); timed_decode!("AsBlocksBuilder::push+finalize", Ok::<_, String>({ let mut b = AsBlocksBuilder::new(); for x in &v { b.push(*x) } b.finalize() })) }
+                };
+                as_accessors(&mut ops, &b);
+            } else {
+                let v4 = fam == Fam::V4;
+                let b: IpBlocks = match route {
+                    Route::Text => { let t = tm_blocks_text(fam, order, n); timed_decode!("IpBlocks::from_str", IpBlocks::from_str(&t).map_err(|e| e.to_string())) }
+                    Route::Serde => { let t = format!("\"{}\"", tm_blocks_text(fam, order, n));
+                        if v4 { timed_decode!("Ipv4Blocks::deserialize", serde_json::from_str::<Ipv4Blocks>(&t).map(IpBlocks::from).map_err(|e| e.to_string())) }
+                        else { timed_decode!("Ipv6Blocks::deserialize", serde_json::from_str::<Ipv6Blocks>(&t).map(IpBlocks::from).map_err(|e| e.to_string())) } }
+                    Route::Der => { let d = tm_blocks_der(fam, order, n); let af = if v4 { AddressFamily::Ipv4 } else { AddressFamily::Ipv6 };
+                        timed_decode!("IpBlocks::take_from_with_family", Mode::Der.decode(d.as_slice(), |c| IpBlocks::take_from_with_family(c, af)).map_err(|e| e.to_string())) }
+                    Route::FromIter => { let v = tm_ip_vec(fam, order, n); timed_decode!("IpBlocks::from_iter", Ok::<_, String>(v.iter().copied().collect::<IpBlocks>())) }
+                    Route::Builder => { let v = tm_ip_vec(fam, order, n); timed_decode!("IpBlocksBuilder::push+finalize", Ok::<_, String>({ let mut b = IpBlocksBuilder::new(); for x in &v { b.push(*x) } b.finalize() })) }
+                };
+                ip_accessors(&mut ops, &b, v4);
+            }
+        }
+        TmCase::SetText(order) => {
+            use rpki::repository::resources::ResourceSet;
+            let (a, v4, v6) = (tm_blocks_text(Fam::As, order, n), tm_blocks_text(Fam::V4, order, n), tm_blocks_text(Fam::V6, order, n));
+            let set = timed_decode!("ResourceSet::from_strs", ResourceSet::from_strs(&a, &v4, &v6).map_err(|e| e.to_string()));
+            tm_measure(&mut ops, "ResourceSet::contains(self)", || { std::hint::black_box(set.contains(&set)); });
+            tm_measure(&mut ops, "ResourceSet::union(self)", || { std::hint::black_box(set.union(&set).is_empty()); });
+            tm_measure(&mut ops, "ResourceSet::intersection(self)", || { std::hint::black_box(set.intersection(&set).is_empty()); });
+            tm_measure(&mut ops, "ResourceSet::difference(self)", || { std::hint::black_box(set.difference(&set).is_empty()); });
+            tm_measure(&mut ops, "ResourceSet Display/serde", || { std::hint::black_box((set.to_string().len(), serde_json::to_string(&set).map(|s| s.len()).unwrap_or(0))); });
+        }
+        TmCase::SetOps(fam, rel) => {
+            // operand ranks: A = ranks a(i), B = ranks b(i) of a list with gaps; Nested / OneCovering change B's geometry
+            let ranks = |which: u8| -> Vec<usize> { match rel {
+                Rel::Halves => if which == 0 { (0..n).collect() } else { (n..2 * n).collect() },
+                Rel::Interleaved => (0..n).map(|i| 2 * i + which as usize).collect(),
+                Rel::Identical | Rel::Nested | Rel::OneCovering => (0..n).collect(),
+            } };
+            let blk = |r: usize, inner: bool| -> (u128, u128) { let (lo, hi) = tm_block(fam, Order::Asc, r); if inner { (lo + 1, hi - 1) } else { (lo, hi) } };
+            let bvec: Vec<(u128, u128)> = match rel {
+                Rel::Nested => ranks(1).into_iter().map(|r| blk(r, true)).collect(),
+                Rel::OneCovering => vec![(tm_block(fam, Order::Asc, 0).0, tm_block(fam, Order::Asc, n - 1).1)],
+                _ => ranks(1).into_iter().map(|r| blk(r, false)).collect(),
+            };
+            let avec: Vec<(u128, u128)> = ranks(0).into_iter().map(|r| blk(r, false)).collect();
+            ops.push(("build operands", Ok(0)));
+            if fam == Fam::As {
+                let (a, b) = (pki::as_blocks(&avec), pki::as_blocks(&bvec));
+                tm_measure(&mut ops, "AsBlocks::union", || { std::hint::black_box(a.union(&b).is_empty()); });
+                tm_measure(&mut ops, "AsBlocks::intersection", || { std::hint::black_box((a.intersection(&b).is_empty(), b.intersection(&a).is_empty())); });
+                tm_measure(&mut ops, "AsBlocks::difference", || { std::hint::black_box((a.difference(&b).is_empty(), b.difference(&a).is_empty())); });
+                tm_measure(&mut ops, "AsBlocks::contains", || { std::hint::black_box((a.contains(&b), b.contains(&a))); });
+                tm_measure(&mut ops, "AsBlocks::intersection_assign", || { let mut c = a.clone(); c.intersection_assign(&b); std::hint::black_box(c.is_empty()); });
+                tm_measure(&mut ops, "AsBlocks::verify_covered", || { std::hint::black_box((a.verify_covered(&AsResources::blocks(b.clone())).is_ok(), b.verify_covered(&AsResources::blocks(a.clone())).is_ok())); });
+                tm_measure(&mut ops, "AsBlocks::verify_issued", || { let r = AsResources::blocks(b.clone()); std::hint::black_box((a.verify_issued(&r, Overclaim::Refuse).is_ok(), a.verify_issued(&r, Overclaim::Trim).is_ok())); });
+                tm_measure(&mut ops, "AsBlocks::contains_asn x n", || { let mut c = 0u32; for &(lo, _) in &bvec { c += a.contains_asn(Asn::from_u32(lo as u32)) as u32 } std::hint::black_box(c); });
+            } else {
+                let bits = if fam == Fam::V4 { 32 } else { 128 };
+                let (a, b) = (pki::ip_blocks(bits, &avec), pki::ip_blocks(bits, &bvec));
+                tm_measure(&mut ops, "IpBlocks::union", || { std::hint::black_box(a.union(&b).is_empty()); });
+                tm_measure(&mut ops, "IpBlocks::intersection", || { std::hint::black_box((a.intersection(&b).is_empty(), b.intersection(&a).is_empty())); });
+                tm_measure(&mut ops, "IpBlocks::difference", || { std::hint::black_box((a.difference(&b).is_empty(), b.difference(&a).is_empty())); });
+                tm_measure(&mut ops, "IpBlocks::contains", || { std::hint::black_box((a.contains(&b), b.contains(&a))); });
+                tm_measure(&mut ops, "IpBlocks::intersection_assign", || { let mut c = a.clone(); c.intersection_assign(&b); std::hint::black_box(c.is_empty()); });
+                tm_measure(&mut ops, "IpBlocks::verify_covered", || { std::hint::black_box((a.verify_covered(&IpResources::blocks(b.clone())).is_ok(), b.verify_covered(&IpResources::blocks(a.clone())).is_ok())); });
+                tm_measure(&mut ops, "IpBlocks::verify_issued", || { let r = IpResources::blocks(b.clone()); std::hint::black_box((a.verify_issued(&r, Overclaim::Refuse).is_ok(), a.verify_issued(&r, Overclaim::Trim).is_ok())); });
+            }
+        }
+        TmCase::Cert(order) => {
+            let d = tm_cert(env, order, n, false, &[Fam::V4, Fam::V6, Fam::As]);
+            let c = timed_decode!("Cert::decode", Cert::decode(d.as_slice()).map_err(|e| e.to_string()));
+            tm_measure(&mut ops, "TbsCert::{v4,v6,as}_resources().to_blocks", || { std::hint::black_box((c.v4_resources().to_blocks().is_ok(), c.v6_resources().to_blocks().is_ok(), c.as_resources().to_blocks().is_ok())); });
+            tm_measure(&mut ops, "Cert::to_captured", || { std::hint::black_box(c.to_captured().len()); });
+            tm_measure(&mut ops, "Cert serde", || { if let Ok(s) = serde_json::to_string(&c) { std::hint::black_box(serde_json::from_str::<Cert>(&s).is_ok()); } });
+            let mut rc = None;
+            tm_measure(&mut ops, "Cert::validate_ca_at", || { rc = c.clone().validate_ca_at(&env.issuers[0].0, false, t0v).ok(); });
+            if let Some(rc) = rc {
+                let (v4, v6, asn) = (rc.v4_resources().clone(), rc.v6_resources().clone(), rc.as_resources().clone());
+                ip_accessors(&mut ops, &v4, true); ip_accessors(&mut ops, &v6, false); as_accessors(&mut ops, &asn);
+            }
+        }
+        TmCase::Rta(order) => {
+            let att = tm_attestation(env, order, n);
+            let d = e5_rta(&env.signer, &att, &[&env.fx.ee_cert_der], &[], &[2], true, None);
+            let r = timed_decode!("Rta::decode", rta::Rta::decode(d.as_slice(), true).map_err(|e| e.to_string()));
+            tm_measure(&mut ops, "Rta::to_captured", || { std::hint::black_box(r.to_captured().len()); });
+            tm_measure(&mut ops, "rta::Validation new_at/supply_ca/finalize", || {
+                if let Ok(mut v) = rta::Validation::new_at(&r, false, t0v) { let _ = v.supply_ca(&env.issuers[1].0); std::hint::black_box(v.finalize().is_ok()); }
+            });
+            tm_measure(&mut ops, "RtaBuilder::from_rta/finalize", || { std::hint::black_box(rta::RtaBuilder::from_rta(r.clone()).finalize().to_captured().len()); });
+            let (v4, v6, asn) = (r.v4_resources().clone(), r.v6_resources().clone(), r.as_resources().clone());
+            ip_accessors(&mut ops, &v4, true); ip_accessors(&mut ops, &v6, false); as_accessors(&mut ops, &asn);
+        }
+        TmCase::Crl(f) => {
+            let serials: Vec<[u8; 20]> = (0..n as u32).map(|k| tm_serial(f, k)).collect();
+            let d = tm_crl(env, &serials);
+            let crl = timed_decode!("Crl::decode", Crl::decode(d.as_slice()).map_err(|e| e.to_string()));
+            let ser = |x: &[u8; 20]| Serial::from_array(*x).expect("positive 20-octet serial");
+            let members: Vec<Serial> = serials.iter().map(ser).collect();
+            let strangers: Vec<Serial> = (n as u32..2 * n as u32).map(|k| ser(&tm_serial(f, k))).collect();
+            tm_measure(&mut ops, "RevokedCertificates::iter", || { std::hint::black_box(crl.revoked_certs().iter().map(|e| e.user_certificate.into_array()[19] as u64).sum::<u64>()); });
+            tm_measure(&mut ops, "Crl::contains x 16 (no cache)", || { let mut c = 0; for i in 0..8 { c += crl.contains(members[i * (n / 8)]) as u32; c += crl.contains(strangers[i * (n / 8)]) as u32 } std::hint::black_box(c); });
+            let mut cached = crl.clone();
+            tm_measure(&mut ops, "Crl::cache_serials", || { let mut c = crl.clone(); c.cache_serials(); cached = c; });
+            tm_measure(&mut ops, "Crl::contains x n listed serials (cached)", || { let mut c = 0u32; for s in &members { c += cached.contains(*s) as u32 } std::hint::black_box(c); });
+            tm_measure(&mut ops, "Crl::contains x n unlisted serials (cached)", || { let mut c = 0u32; for s in &strangers { c += cached.contains(*s) as u32 } std::hint::black_box(c); });
+            tm_measure(&mut ops, "CrlStore::push with serial caching + get + contains x n", || {
+                let mut st = CrlStore::new(); st.enable_serial_caching();
+                let u = rsync("rsync://example.net/repo/ca/ca.crl");
+                st.push(u.clone(), crl.clone());
+                let mut c = 0u32; if let Some(x) = st.get(&u) { for s in &members { c += x.contains(*s) as u32 } } std::hint::black_box(c);
+            });
+            tm_measure(&mut ops, "Crl::to_captured", || { std::hint::black_box(crl.to_captured().len()); });
+            tm_measure(&mut ops, "Crl serde", || { if let Ok(s) = serde_json::to_string(&crl) { std::hint::black_box(serde_json::from_str::<Crl>(&s).is_ok()); } });
+        }
+        TmCase::Mft(shape) => {
+            let pad = "a".repeat(48);
+            let entries: Vec<der::MftEntry> = (0..n).map(|i| {
+                let name = match shape {
+                    MftShape::Ordinary | MftShape::SameHashes => format!("{:08x}{pad}.roa", (i as u32).wrapping_mul(0x9e37_79b9)),
+                    MftShape::CommonPrefix => format!("{pad}{i:08x}.roa"),
+                    MftShape::CommonSuffix => format!("{i:08x}{pad}.roa"),
+                    MftShape::SameNames => format!("{:08x}{pad}.roa", 7),
+                };
+                let hash = if shape == MftShape::SameHashes { vec![0x5a; 32] } else { signer::sha256(&(i as u32).to_be_bytes()) };
+                der::MftEntry { name: name.into_bytes(), hash_unused: 0, hash }
+            }).collect();
+            let econtent = der::manifest_content(None, &[5], der::gentime(civil(2023, 11, 14)), der::gentime(civil(2123, 1, 1)), der::OID_SHA256, &entries);
+            let d = e5_signed_object(&env.signer, der::OID_CT_MANIFEST, &econtent, &env.fx.ee_inherit_der, 2, vec![], true);
+            let m = timed_decode!("Manifest::decode", Manifest::decode(d.as_slice(), true).map_err(|e| e.to_string()));
+            tm_measure(&mut ops, "ManifestContent::len/iter", || { std::hint::black_box((m.len(), m.iter().map(|f| f.file().len() + f.hash().len()).sum::<usize>())); });
+            tm_measure(&mut ops, "ManifestContent::iter_uris", || { std::hint::black_box(m.iter_uris(&env.base).map(|(u, h)| u.as_str().len() + h.as_slice().len()).sum::<usize>()); });
+            tm_measure(&mut ops, "Manifest::to_captured", || { std::hint::black_box(m.to_captured().len()); });
+            tm_measure(&mut ops, "ManifestContent::encode_ref", || { std::hint::black_box(m.content().encode_ref().to_captured(Mode::Der).len()); });
+            tm_measure(&mut ops, "Manifest serde", || { if let Ok(s) = serde_json::to_string(&m) { std::hint::black_box(serde_json::from_str::<Manifest>(&s).is_ok()); } });
+            tm_measure(&mut ops, "Manifest::validate_at + content iter", || {
+                if let Ok((_, c)) = m.clone().validate_at(&env.issuers[1].0, true, t0v) { std::hint::black_box(c.iter().count()); }
+            });
+        }
+        TmCase::Aspa(shape) => {
+            let provs: Vec<u128> = (0..n as u128).map(|i| match shape {
+                AspaShape::Ordinary => 100_000 + 2 * i + (i * i) % 2,
+                AspaShape::Shift16 => (i + 1) << 16,
+                AspaShape::Shift8 => (i + 1) << 8,
+                AspaShape::Consecutive => 100_000 + i,
+                AspaShape::Descending => 200_000 - 2 * i,
+                AspaShape::LowWindow => 0xabcd_0000 + i,
+            }).collect();
+            let econtent = der::aspa_content(Some(1), 64496, &provs);
+            let d = e5_signed_object(&env.signer, der::OID_CT_ASPA, &econtent, &env.fx.ee_as_der, 2, vec![], true);
+            let a = timed_decode!("Aspa::decode", Aspa::decode(d.as_slice(), true).map_err(|e| e.to_string()));
+            tm_measure(&mut ops, "ProviderAsSet::iter", || { std::hint::black_box(a.content().provider_as_set().iter().map(|x| x.into_u32() as u64).sum::<u64>()); });
+            tm_measure(&mut ops, "ProviderAsSet::to_set + contains x n", || {
+                let set = a.content().provider_as_set().to_set();
+                let mut c = 0u32; for p in &provs { c += set.contains(Asn::from_u32(*p as u32)) as u32; c += set.contains(Asn::from_u32(*p as u32 + 1)) as u32 } std::hint::black_box((c, set.len()));
+            });
+            tm_measure(&mut ops, "AsProviderAttestation::as_resources/encode_ref", || { std::hint::black_box((a.content().as_resources().is_present(), a.content().encode_ref().to_captured(Mode::Der).len())); });
+            tm_measure(&mut ops, "Aspa::to_captured", || { std::hint::black_box(a.to_captured().len()); });
+            tm_measure(&mut ops, "Aspa::process", || { if let Ok((_, att)) = a.clone().process(&env.issuers[1].0, true, |_| Ok(())) { std::hint::black_box(att.provider_as_set().len()); } });
+        }
+        TmCase::Roa(fam, shape) => {
+            let v4 = fam == Fam::V4;
+            let (bits, plen) = if v4 { (32u8, 24u8) } else { (128u8, 56u8) };
+            let order = match shape { RoaShape::Desc => Order::Desc, RoaShape::Zigzag => Order::Zigzag, _ => Order::Asc };
+            let addrs: Vec<der::RoaAddr> = order.perm(n).into_iter().map(|r| match shape {
+                RoaShape::Same => der::roa_addr_from(tm_block(fam, Order::Asc, 3).0, plen, bits, Some(plen as u128)),
+                RoaShape::SameAddrAllLengths => { let l = plen + (r % (bits - plen + 1) as usize) as u8; der::roa_addr_from(tm_block(fam, Order::Asc, 3).0, l, bits, if r % 2 == 0 { Some(bits as u128) } else { None }) }
+                _ => der::roa_addr_from(tm_block(fam, Order::Asc, r).0, plen, bits, if r % 2 == 0 { Some(plen as u128) } else { None }),
+            }).collect();
+            let econtent = if v4 { der::roa_content(None, 64496, Some(&addrs), None) } else { der::roa_content(None, 64496, None, Some(&addrs)) };
+            // the EE certificate holds either one covering block per family or, for UnderManyBlocks, exactly the n blocks
+            let ee = if shape == RoaShape::UnderManyBlocks { tm_cert(env, Order::Asc, n, true, &[fam]) } else { env.fx.tm_ee_der.clone() };
+            let d = e5_signed_object(&env.signer, der::OID_CT_ROA, &econtent, &ee, 2, vec![], true);
+            let r = timed_decode!("Roa::decode", Roa::decode(d.as_slice(), true).map_err(|e| e.to_string()));
+            tm_measure(&mut ops, "RoaIpAddresses::iter", || { std::hint::black_box(r.content().v4_addrs().iter().chain(r.content().v6_addrs().iter()).map(|a| a.prefix().addr_len() as u64).sum::<u64>()); });
+            tm_measure(&mut ops, "RouteOriginAttestation::iter", || { std::hint::black_box(r.content().iter().map(|f| f.address_length() as u64).sum::<u64>()); });
+            tm_measure(&mut ops, "RouteOriginAttestation::iter_origins", || { std::hint::black_box(r.content().iter_origins().count()); });
+            tm_measure(&mut ops, "Roa::to_captured", || { std::hint::black_box(r.to_captured().len()); });
+            tm_measure(&mut ops, "RouteOriginAttestation::encode_ref", || { std::hint::black_box(r.content().encode_ref().to_captured(Mode::Der).len()); });
+            tm_measure(&mut ops, "Roa::process", || { if let Ok((_, att)) = r.clone().process(&env.issuers[1].0, true, |_| Ok(())) { std::hint::black_box(att.iter().count()); } });
+        }
+    }
+    (ops, true)
+}
+
+/// One case of the time space: crafted and ordinary object at every size; returns the
+/// failures as (oracle, accessor, detail) and whether the crafted object decoded at the largest size.
+fn tm_judge(env: &Env, case: TmCase, thorough: bool) -> (Vec<(&'static str, String, String)>, bool, u64) {
+    let sizes = case.sizes(thorough);
+    let mut fails: Vec<(&'static str, String, String)> = Vec::new();
+    let mut evals = 0u64;
+    let mut table: Vec<(bool, Vec<(TmOps, bool)>)> = Vec::new();
+    for (is_control, c) in [(false, case), (true, case.control())] {
+        let mut rows = Vec::new();
+        for &n in &sizes {
+            let row = tm_run(env, c, n);
+            evals += row.0.len() as u64;
+            // an operation that already is far over the margin is not run at a larger size
+            let over = row.0.iter().any(|(_, r)| matches!(r, Ok(ns) if *ns > 20 * TM_MARGIN_NS));
+            rows.push(row);
+            if over { break }
+        }
+        table.push((is_control, rows));
+    }
+    let ms = |ns: u64| format!("{:.2} ms", ns as f64 / 1e6);
+    let lookup = |rows: &[(TmOps, bool)], k: usize, name: &str| -> Option<u64> { rows.get(k).and_then(|(ops, _)| ops.iter().find(|(n, _)| *n == name).and_then(|(_, r)| r.clone().ok())) };
+    for (is_control, rows) in &table {
+        let who = if *is_control { "ordinary object" } else { "crafted object" };
+        for (k, (ops, _)) in rows.iter().enumerate() {
+            for (name, r) in ops {
+                match r {
+                    Err(p) => fails.push(("C04.time.panic", name.to_string(), format!("{who}, n={}: {p}", sizes[k]))),
+                    Ok(t) => {
+                        if k > 0 { if let Some(prev) = lookup(rows, k - 1, name) {
+                            let factor = (sizes[k] as u64 * 1000 / sizes[k - 1] as u64).max(1000);        // in thousandths
+                            let linear = prev.max(1_000) * factor / 1000;
+                            // "well above linear": more than TM_GROWTH/4 times what linear growth predicts, and by more than the margin
+                            if *t * 4 > linear * TM_GROWTH && *t > linear + TM_MARGIN_NS {
+                                fails.push(("C04.time.growth", name.to_string(), format!("{who}: n={} takes {}, n={} takes {} of CPU time ({:.1}x the time for {:.1}x the size; linear growth would be {})",
+                                    sizes[k - 1], ms(prev), sizes[k], ms(*t), *t as f64 / prev.max(1) as f64, factor as f64 / 1000.0, ms(linear))));
+                            }
+                        } }
+                        if !*is_control { if let Some(ctl) = lookup(&table[1].1, k, name) {
+                            if *t > ctl.max(1_000) * TM_VS_CONTROL && *t > ctl + TM_MARGIN_NS {
+                                fails.push(("C04.time.vs_control", name.to_string(), format!("n={}: the crafted object takes {}, an ordinary object of the same size {} ({:.0}x)", sizes[k], ms(*t), ms(ctl), *t as f64 / ctl.max(1) as f64)));
+                            }
+                        } }
+                    }
+                }
+            }
+        }
+    }
+    if std::env::var("C04_TIME_TRACE").is_ok() {
+        for (is_control, rows) in &table { for (k, (ops, ok)) in rows.iter().enumerate() {
+            eprintln!("c04 time: {} {} n={} decoded={} {}", case.desc(), if *is_control { "control" } else { "crafted" }, sizes[k], ok,
+                ops.iter().map(|(n, r)| format!("{n}={}", match r { Ok(t) => ms(*t), Err(_) => "panic".into() })).collect::<Vec<_>>().join("; "));
+        } }
+    }
+    let decoded = table[0].1.last().map(|(_, ok)| *ok).unwrap_or(false);
+    // the ordinary object must decode at every size, or the comparison means nothing
+    if table[1].1.iter().any(|(_, ok)| !*ok) { fails.push(("C04.time.fixture", "decode".into(), "the ordinary object of this family does not decode".into())) }
+    (fails, decoded, evals)
+}
+
+//============ rta.validation.matrix: inherit x policy x depth x call order ==========
+
+/// One family's claim in a certificate of the matrix.
+#[derive(Clone, Copy, Debug, PartialEq, Eq, Hash, PartialOrd, Ord)]
+enum Cl { Inh, Blk, Mis, Wide }
+impl Cl { fn ch(self) -> char { match self { Cl::Inh => 'i', Cl::Blk => 'b', Cl::Mis => '-', Cl::Wide => 'w' } } }
+fn cl3(c: [Cl; 3]) -> String { c.iter().map(|x| x.ch()).collect() }
+
+/// TA -> d CA certificates -> EE certificate(s) -> RTA. Families are (v4, v6, AS).
+#[derive(Clone, Debug)]
+struct MxCfg {
+    d: usize,
+    ee: [Cl; 3],
+    /// ca[0] is issued by the TA; only the first d are used
+    ca: [[Cl; 3]; 3],
+    /// how many of the issuers above the EE certificate travel inside the RTA (d + 1 = including the TA certificate)
+    embed: usize,
+    /// 0 = every certificate refuses overclaim, 1 = every issued certificate trims, 2 = only the EE certificates trim
+    trim: u8,
+    /// a second signer (its EE certificate swaps inherit and blocks)
+    two: bool,
+    /// the attestation asks for one block that nobody holds
+    over: bool,
+}
+
+impl MxCfg {
+    fn desc(&self) -> String {
+        format!("d={},ee={},ca={},embedded={},policy={},signers={},attested={}", self.d, cl3(self.ee),
+            if self.d == 0 { "none".to_string() } else { self.ca[..self.d].iter().map(|c| cl3(*c)).collect::<Vec<_>>().join("/") },
+            self.embed, ["refuse", "trim", "trim-ee-only"][self.trim as usize], if self.two { 2 } else { 1 }, if self.over { "one-block-too-many" } else { "exact" })
+    }
+    fn ee2(&self) -> [Cl; 3] { self.ee.map(|c| match c { Cl::Inh => Cl::Blk, Cl::Blk | Cl::Wide => Cl::Inh, Cl::Mis => Cl::Mis }) }
+}
+
+fn triples(set: &[Cl]) -> Vec<[Cl; 3]> { let mut v = Vec::new(); for &a in set { for &b in set { for &c in set { v.push([a, b, c]) } } } v }
+
+/// All configurations of the matrix in a fixed order; the second value is the number of supply calls after `new_at`.
+fn mx_cfgs(thorough: bool) -> Vec<(MxCfg, usize)> {
+    let mut out = Vec::new();
+    let ca8 = triples(&[Cl::Inh, Cl::Blk]);
+    let uniform = vec![[Cl::Inh; 3], [Cl::Blk; 3]];
+    for d in 0..=3usize {
+        let ee_set = if d <= 1 || (thorough && d == 2) { triples(&[Cl::Inh, Cl::Blk, Cl::Mis, Cl::Wide]) } else { triples(&[Cl::Inh, Cl::Blk, Cl::Mis]) };
+        let per_level = if d == 3 && !thorough { &uniform } else { &ca8 };
+        let mut cas: Vec<[[Cl; 3]; 3]> = vec![[[Cl::Blk; 3]; 3]];
+        for lvl in 0..d { cas = cas.iter().flat_map(|c| per_level.iter().map(move |p| { let mut x = *c; x[lvl] = *p; x })).collect(); }
+        let variants: Vec<(u8, bool, bool)> = if thorough && d <= 2 { (0..3u8).flat_map(|t| [(t, false, false), (t, true, false), (t, false, true), (t, true, true)]).collect() }
+            else { vec![(0, false, false), (1, false, false), (2, false, false), (0, true, false), (0, false, true)] };
+        // every order of the d + 2 possible supply calls; beyond depth 2 (quick: beyond depth 1) only the first three calls
+        let depth = if d <= 1 || (thorough && d == 2) { d + 2 } else { 3 };
+        for ee in &ee_set { for ca in &cas { for embed in 0..=d + 1 { for &(trim, two, over) in &variants {
+            out.push((MxCfg { d, ee: *ee, ca: *ca, embed, trim, two, over }, depth));
+        } } } }
+    }
+    out
+}
+
+/// Keys of the levels: TA, CA 1..3, first EE, second EE.
+const MX_KEY: [usize; 6] = [0, 1, 3, 5, 2, 6];
+
+/// The block a certificate of this level claims (nested from level to level; the two EE certificates are disjoint).
+fn mx_block(level: usize, fam: usize) -> (u128, u128) {
+    let v6 = 0x2001_0db8u128 << 96;
+    match (fam, level) {
+        (0, 1) => (0x0a00_0000, 0x0aff_ffff), (0, 2) => (0x0a00_0000, 0x0a0f_ffff), (0, 3) => (0x0a00_0000, 0x0a00_ffff),
+        (0, 4) => (0x0a00_0000, 0x0a00_0fff), (0, _) => (0x0a00_1000, 0x0a00_1fff),
+        (1, 1) => (v6, v6 | ((1u128 << 96) - 1)), (1, 2) => (v6, v6 | ((1u128 << 92) - 1)), (1, 3) => (v6, v6 | ((1u128 << 88) - 1)),
+        (1, 4) => (v6, v6 | ((1u128 << 84) - 1)), (1, _) => (v6 + (1u128 << 84), v6 + (1u128 << 84) + ((1u128 << 84) - 1)),
+        (_, 1) => (64496, 64999), (_, 2) => (64496, 64799), (_, 3) => (64496, 64599), (_, 4) => (64496, 64511), (_, _) => (64512, 64520),
+    }
+}
+/// More than any CA certificate of the matrix holds.
+fn mx_wide(fam: usize) -> (u128, u128) {
+    match fam { 0 => (0x0a00_0000, 0x0bff_ffff), 1 => (0x2001_0db8u128 << 96, (0x2001_0db9u128 << 96) | ((1u128 << 96) - 1)), _ => (64000, 65100) }
+}
+fn mx_claim(c: Cl, level: usize, fam: usize) -> Claim {
+    match c { Cl::Inh => Claim::Inherit, Cl::Mis => Claim::Missing, Cl::Blk => Claim::Blocks(vec![mx_block(level, fam)]), Cl::Wide => Claim::Blocks(vec![mx_wide(fam)]) }
+}
+/// What the chain really gives the signer in one family (the model behind the "exact" attestation).
+fn mx_effective(cfg: &MxCfg, claims: [Cl; 3], level: usize, fam: usize) -> Option<(u128, u128)> {
+    let parent = (1..=cfg.d).rev().find(|&l| cfg.ca[l - 1][fam] == Cl::Blk).map(|l| mx_block(l, fam));
+    let all = if fam == 1 { (0, u128::MAX) } else { (0, u32::MAX as u128) };
+    match claims[fam] { Cl::Mis => None, Cl::Blk => Some(mx_block(level, fam)), Cl::Inh => Some(parent.unwrap_or(all)), Cl::Wide => Some(parent.unwrap_or(mx_wide(fam))) }
+}
+
+#[derive(Default)]
+struct MxFx {
+    /// (level, issuer level, claims, trims) -> DER
+    certs: HashMap<(usize, usize, [Cl; 3], bool), Vec<u8>>,
+    /// (d, CA claims, CAs trim) -> the validated certificates TA, CA 1, .., CA d
+    chains: HashMap<(usize, [[Cl; 3]; 3], bool), Arc<Vec<ResourceCert>>>,
+    crls: HashMap<usize, Vec<u8>>,
+    /// (key, to-be-signed attributes) -> signature
+    sigs: HashMap<(usize, Vec<u8>), Vec<u8>>,
+}
+
+impl MxFx {
+    fn cert(&mut self, env: &Env, level: usize, issuer: usize, claims: [Cl; 3], trim: bool) -> Vec<u8> {
+        self.certs.entry((level, issuer, claims, trim)).or_insert_with(|| {
+            let s = &env.signer;
+            let serial = 5000 + (level * 4 + issuer) as u128 * 1000 + claims.iter().fold(0u128, |a, c| a * 4 + *c as u128) * 2 + trim as u128;
+            if level == 0 { return pki::build_cert_der(s, &spec_with(Spec::ta(MX_KEY[0], Res::all()), serial)) }
+            let res = Res { v4: mx_claim(claims[0], level, 0), v6: mx_claim(claims[1], level, 1), asn: mx_claim(claims[2], level, 2) };
+            let kind = if level >= 4 { pki::Kind::Ee } else { pki::Kind::Ca };
+            let policy = if trim { Overclaim::Trim } else { Overclaim::Refuse };
+            pki::build_cert_der(s, &spec_with(Spec::issued(kind, MX_KEY[level], MX_KEY[issuer], s.ski(MX_KEY[issuer]), res, policy), serial))
+        }).clone()
+    }
+    fn chain(&mut self, env: &Env, cfg: &MxCfg) -> Arc<Vec<ResourceCert>> {
+        let trim = cfg.trim == 1;
+        let mut key_ca = cfg.ca; for l in cfg.d..3 { key_ca[l] = [Cl::Blk; 3] }
+        if let Some(c) = self.chains.get(&(cfg.d, key_ca, trim)) { return c.clone() }
+        let mut v: Vec<ResourceCert> = Vec::new();
+        let ta = self.cert(env, 0, 0, [Cl::Blk; 3], false);
+        v.push(Cert::decode(ta.as_slice()).expect("matrix TA decodes").validate_ta_at(pki::tal(), false, t0()).expect("matrix TA validates"));
+        for l in 1..=cfg.d {
+            let c = self.cert(env, l, l - 1, cfg.ca[l - 1], trim);
+            let rc = Cert::decode(c.as_slice()).expect("matrix CA decodes").validate_ca_at(&v[l - 1], false, t0()).expect("matrix CA validates");
+            v.push(rc);
+        }
+        let v = Arc::new(v);
+        self.chains.insert((cfg.d, key_ca, trim), v.clone());
+        v
+    }
+    fn crl(&mut self, env: &Env, key: usize) -> Vec<u8> {
+        self.crls.entry(key).or_insert_with(|| {
+            let s = &env.signer;
+            TbsCertList::new(RpkiSignatureAlgorithm::default(), s.public(key).to_subject_name(), pki::time(pki::T0 - 3600), Time::utc(2123, 11, 14, 0, 0, 0),
+                vec![CrlEntry::new(Serial::from(999u64), pki::time(pki::T0 - 7200))], s.public(key).key_identifier(), Serial::from(1u64))
+                .into_crl(s, &Kid(key)).expect("matrix crl").to_captured().as_slice().to_vec()
+        }).clone()
+    }
+    /// The RTA of a configuration, assembled with the independent encoder.
+    fn rta(&mut self, env: &Env, cfg: &MxCfg) -> Vec<u8> {
+        let s = &env.signer;
+        let (trim_ee, trim_ca) = (cfg.trim != 0, cfg.trim == 1);
+        let mut certs = vec![self.cert(env, 4, cfg.d, cfg.ee, trim_ee)];
+        let mut signers = vec![(MX_KEY[4], cfg.ee, 4usize)];
+        if cfg.two { certs.push(self.cert(env, 5, cfg.d, cfg.ee2(), trim_ee)); signers.push((MX_KEY[5], cfg.ee2(), 5)); }
+        let mut crls = Vec::new();
+        for j in 0..cfg.embed {
+            let level = cfg.d - j.min(cfg.d);
+            if j > cfg.d { break }
+            certs.push(if level == 0 { self.cert(env, 0, 0, [Cl::Blk; 3], false) } else { self.cert(env, level, level - 1, cfg.ca[level - 1], trim_ca) });
+            crls.push(self.crl(env, MX_KEY[level]));
+        }
+        // the attestation: exactly what the signers hold (plus one foreign block)
+        let mut att = rta::AttestationBuilder::new(DigestAlgorithm::default(), DigestAlgorithm::default().digest(b"attested document").into());
+        for (k, _, _) in &signers { att.push_key(s.public(*k).key_identifier()) }
+        let mut any = false;
+        for (_, claims, level) in &signers {
+            if let Some(b) = mx_effective(cfg, *claims, *level, 0) { for x in pki::ip_blocks(32, &[b]).iter() { att.push_v4(x) } any = true }
+            if let Some(b) = mx_effective(cfg, *claims, *level, 1) { for x in pki::ip_blocks(128, &[b]).iter() { att.push_v6(x) } any = true }
+            if let Some(b) = mx_effective(cfg, *claims, *level, 2) { for x in pki::as_blocks(&[b]).iter() { att.push_as(x) } any = true }
+        }
+        if cfg.over || !any { for x in pki::ip_blocks(32, &[(0xc000_0200, 0xc000_02ff)]).iter() { att.push_v4(x) } }
+        let content = att.into_attestation().encode_ref().to_captured(Mode::Der).as_slice().to_vec();
+        let tbs = der::signed_attrs_tbs(&rta_attrs(&content));
+        let infos: Vec<Vec<u8>> = signers.iter().map(|(k, _, _)| {
+            let sig = self.sigs.entry((*k, tbs.clone())).or_insert_with(|| s.sign_raw(*k, &tbs)).clone();
+            let mut wire = tbs.clone(); wire[0] = 0xa0;
+            der::seq(&[der::int_u(3), der::ctx(0, false, s.ski(*k).as_slice()), der::alg_sha256(false), wire, der::alg_rsa_encryption(), der::octets(&sig)])
+        }).collect();
+        let mut sd = vec![der::int_u(3), der::set_of(&[der::alg_sha256(false)]), der::seq(&[der::oid(OID_CT_RTA), der::ctx(0, true, &der::octets(&content))]), der::ctx(0, true, &certs.concat())];
+        if !crls.is_empty() { sd.push(der::ctx(1, true, &crls.concat())) }
+        sd.push(der::set_unsorted(&infos));
+        der::seq(&[der::oid(der::OID_SIGNED_DATA), der::ctx(0, true, &der::seq(&sd))])
+    }
+}
+
+struct MxWalk<'e> {
+    env: &'e Env, chain: &'e [ResourceCert], depth: usize,
+    nodes: u64, finalized: u64, outcomes: BTreeMap<String, u64>,
+    /// (calls so far, accessor, panic)
+    panics: Vec<(String, &'static str, String)>,
+}
+
+impl MxWalk<'_> {
+    fn call_name(a: usize) -> String { if a == 0 { "supply_tal".into() } else if a == 1 { "supply_ca(TA)".into() } else { format!("supply_ca(CA{})", a - 1) } }
+    fn calls(path: &[usize], last: &str) -> String { std::iter::once("new_at".to_string()).chain(path.iter().map(|a| Self::call_name(*a))).chain(std::iter::once(last.to_string())).collect::<Vec<_>>().join(">") }
+    fn count(&mut self, k: String) { *self.outcomes.entry(k).or_insert(0) += 1 }
+    /// `finalize` here, then every not yet used supply call and from there again.
+    fn visit<'a>(&mut self, v: &rta::Validation<'a>, used: &mut Vec<bool>, path: &mut Vec<usize>) {
+        self.nodes += 1;
+        match guard(|| v.clone().finalize().map(|c| c.subject_keys().len())) {
+            Err(p) => self.panics.push((Self::calls(path, "finalize"), "rta::Validation::finalize", p)),
+            Ok(Ok(_)) => { self.finalized += 1; self.count("finalize: the attestation is valid".into()) }
+            Ok(Err(e)) => self.count(format!("finalize: {}", err_class(&e.to_string()))),
+        }
+        if path.len() >= self.depth { return }
+        for a in 0..used.len() {
+            if used[a] { continue }
+            if a == 0 && self.env.tal.is_none() { continue }
+            let mut w = v.clone();
+            let r = guard(|| if a == 0 { w.supply_tal(self.env.tal.as_ref().unwrap()) } else { w.supply_ca(&self.chain[a - 1]) });
+            let what = if a == 0 { "supply_tal" } else { "supply_ca" };
+            match r {
+                Err(p) => { self.panics.push((Self::calls(path, &Self::call_name(a)), if a == 0 { "rta::Validation::supply_tal" } else { "rta::Validation::supply_ca" }, p)); continue }
+                Ok(Ok(done)) => self.count(format!("{what}: {}", if done { "all chains complete" } else { "not (yet) complete" })),
+                Ok(Err(e)) => { self.count(format!("{what}: {}", err_class(&e.to_string()))); }
+            }
+            used[a] = true; path.push(a);
+            self.visit(&w, used, path);
+            path.pop(); used[a] = false;
+        }
+    }
+}
+
+/// Runs one configuration: decode, `new_at` (lenient and strict), the whole tree of supply calls with `finalize` at every node.
+fn mx_run(env: &Env, fx: &mut MxFx, idx: u64, cfg: &MxCfg, depth: usize, res: &mut TaskResult) {
+    let built = guard(|| { let b = fx.rta(env, cfg); let c = fx.chain(env, cfg); (b, c) });
+    let (bytes, chain) = match built { Ok(x) => x, Err(p) => { res.mach.push(format!("rta matrix: cannot build {}: {p}", cfg.desc())); return } };
+    let mut fail = |res: &mut TaskResult, strict: &str, calls: &str, acc: &str, p: String| {
+        let n = res.fails.len();
+        res.fails.push(("C04.rta.validation.panic".to_string(),
+            format!("mode=strict;cause=panic ep=rta seed=- sp=rtamx i={idx} case={},validation={strict},calls={calls} acc={acc}", cfg.desc()),
+            if n < 3 { format!("{p} | input={}", hex(&bytes)) } else { p }));
+    };
+    res.evals += 1;
+    let r = match guard(|| rta::Rta::decode(bytes.as_slice(), true)) {
+        Err(p) => { fail(res, "-", "decode", "Rta::decode", p); return }
+        Ok(Err(e)) => { *res.outcomes.entry(format!("decode: {}", err_class(&e.to_string()))).or_insert(0) += 1; return }
+        Ok(Ok(r)) => r,
+    };
+    let mut any = false;
+    for strict in [false, true] {
+        let sname = if strict { "strict" } else { "lenient" };
+        let v = match guard(|| rta::Validation::new_at(&r, strict, t0())) {
+            Err(p) => { fail(res, sname, "new_at", "rta::Validation::new_at", p); res.evals += 1; continue }
+            Ok(Err(e)) => { *res.outcomes.entry(format!("new_at: {}", err_class(&e.to_string()))).or_insert(0) += 1; res.evals += 1; continue }
+            Ok(Ok(v)) => v,
+        };
+        *res.outcomes.entry("new_at: ok".to_string()).or_insert(0) += 1;
+        let mut w = MxWalk { env, chain: &chain, depth, nodes: 0, finalized: 0, outcomes: BTreeMap::new(), panics: Vec::new() };
+        w.visit(&v, &mut vec![false; cfg.d + 2], &mut Vec::new());
+        res.evals += w.nodes;
+        any |= w.finalized > 0;
+        for (k, n) in w.outcomes { *res.outcomes.entry(k).or_insert(0) += n }
+        for (calls, acc, p) in w.panics { fail(res, sname, &calls, acc, p) }
+    }
+    if any { res.nontrivial += 1; *res.marks.entry("configurations in which some call order ends in a valid attestation".into()).or_insert(0) += 1 }
+}
+
+//============ accessor.sequences: every call sequence up to a length on decoded objects ===
+
+struct Meth<'a, O> { name: &'static str, /// the answer may not depend on what was called before
+    pure_obs: bool, f: Box<dyn Fn(&mut O) -> String + 'a> }
+fn meth<'a, O>(name: &'static str, f: impl Fn(&mut O) -> String + 'a) -> Meth<'a, O> { Meth { name, pure_obs: true, f: Box::new(f) } }
+fn meth_state<'a, O>(name: &'static str, f: impl Fn(&mut O) -> String + 'a) -> Meth<'a, O> { Meth { name, pure_obs: false, f: Box::new(f) } }
+
+#[derive(Default)]
+struct SeqOut {
+    evals: u64, nontrivial: u64, outcomes: BTreeMap<String, u64>,
+    /// (oracle, type, call sequence, detail)
+    fails: Vec<(&'static str, &'static str, String, String)>,
+}
+
+fn obs_class(s: &str) -> String { trunc(&err_class(s), 40) }
+
+/// All sequences of 1..=maxlen calls from `meths`, each on a fresh object; every answer of a
+/// pure accessor must be the one it gives as the first call on a fresh object.
+fn seq_drive<O>(ty: &'static str, fresh: &dyn Fn() -> Option<O>, meths: &[Meth<O>], maxlen: usize, out: &mut SeqOut) {
+    let m = meths.len();
+    if m == 0 { return }
+    let mut reference: Vec<Option<String>> = Vec::new();
+    for me in meths {
+        let Some(mut o) = fresh() else { return };
+        match guard(|| (me.f)(&mut o)) {
+            Ok(s) => { *out.outcomes.entry(format!("{ty}: {} -> {}", me.name, obs_class(&s))).or_insert(0) += 1; reference.push(Some(s)) }
+            Err(_) => reference.push(None),       // reported by the length-1 sequence below
+        }
+    }
+    for len in 1..=maxlen {
+        let total = (m as u64).pow(len as u32);
+        for code in 0..total {
+            let mut seq = Vec::with_capacity(len);
+            let mut c = code;
+            for _ in 0..len { seq.push((c % m as u64) as usize); c /= m as u64 }
+            let Some(mut o) = fresh() else { return };
+            out.evals += 1;
+            if len > 1 { out.nontrivial += 1 }
+            for (k, &mi) in seq.iter().enumerate() {
+                let me = &meths[mi];
+                let names = || seq[..=k].iter().map(|&i| meths[i].name).collect::<Vec<_>>().join(">");
+                match guard(|| (me.f)(&mut o)) {
+                    Err(p) => { out.fails.push(("C04.seq.panic", ty, names(), p)); break }
+                    Ok(s) => if me.pure_obs { if let Some(r) = &reference[mi] { if *r != s {
+                        out.fails.push(("C04.seq.same_answer", ty, names(), format!("{} answers {:?} after these calls, {:?} as the first call on a fresh object", me.name, trunc(&s, 120), trunc(r, 120))));
+                        break
+                    } } }
+                }
+            }
+        }
+    }
+}
+
+/// Two iterators over the same object, advanced in every interleaving of up to `maxlen`
+/// steps from {next on either, nth(1), size_hint, count, last}; the items must be those of one plain pass.
+fn iter_seqs<I: Iterator>(ty: &'static str, mk: &dyn Fn() -> I, render: &dyn Fn(I::Item) -> String, cap: usize, maxlen: usize, out: &mut SeqOut) {
+    let reference: Vec<String> = match guard(|| mk().take(cap + 1).map(render).collect::<Vec<_>>()) {
+        Ok(v) => v,
+        Err(p) => { out.fails.push(("C04.seq.panic", ty, "collect".into(), p)); return }
+    };
+    if reference.len() > cap { out.fails.push(("C04.seq.iter", ty, "collect".into(), format!("more than {cap} items"))); return }
+    *out.outcomes.entry(format!("{ty}: {}", match reference.len() { 0 => "no items", 1 => "one item", _ => "several items" })).or_insert(0) += 1;
+    const OPS: [&str; 6] = ["a.next", "b.next", "a.nth(1)", "a.size_hint", "a.count", "a.last"];
+    let n = reference.len();
+    for len in 1..=maxlen {
+        for code in 0..(OPS.len() as u64).pow(len as u32) {
+            let mut seq = Vec::with_capacity(len);
+            let mut c = code;
+            for _ in 0..len { seq.push((c % OPS.len() as u64) as usize); c /= OPS.len() as u64 }
+            out.evals += 1;
+            if len > 1 { out.nontrivial += 1 }
+            let r = guard(|| -> Result<(), String> {
+                let (mut a, mut b) = (mk(), mk());
+                // positions in the reference; `None` = the iterator has reported its end (or was consumed) and is no longer asked
+                let (mut pa, mut pb) = (Some(0usize), Some(0usize));
+                for &op in &seq {
+                    match op {
+                        0 | 1 => {
+                            let (it, p) = if op == 0 { (&mut a, &mut pa) } else { (&mut b, &mut pb) };
+                            let got = it.next().map(render);
+                            if let Some(k) = *p {
+                                if got.as_ref() != reference.get(k) { return Err(format!("{} gives {:?}, item {k} of a plain pass is {:?}", OPS[op], got, reference.get(k))) }
+                                *p = if k < n { Some(k + 1) } else { None };
+                            }
+                        }
+                        2 => { let got = a.nth(1).map(render); if let Some(k) = pa {
+                            if got.as_ref() != reference.get(k + 1) { return Err(format!("nth(1) at position {k} gives {:?}, a plain pass has {:?}", got, reference.get(k + 1))) }
+                            pa = if k + 1 < n { Some(k + 2) } else { None };
+                        } }
+                        3 => { let (lo, hi) = a.size_hint(); if let Some(k) = pa { if lo > n - k || hi.map(|h| h < n - k).unwrap_or(false) { return Err(format!("size_hint ({lo}, {hi:?}) with {} items left", n - k)) } } }
+                        4 => { let got = a.by_ref().count(); if let Some(k) = pa { if got != n - k { return Err(format!("count gives {got} with {} items left", n - k)) } } pa = None; }
+                        _ => { let got = a.by_ref().last().map(render); if let Some(k) = pa { let want = if k < n { reference.last() } else { None }; if got.as_ref() != want { return Err(format!("last gives {:?}, a plain pass ends with {:?}", got, want)) } } pa = None; }
+                    }
+                }
+                for (it, p, name) in [(&mut a, pa, "a"), (&mut b, pb, "b")] {
+                    if let Some(k) = p {
+                        let rest: Vec<String> = it.take(cap + 1).map(render).collect();
+                        if rest[..] != reference[k..] { return Err(format!("the rest of iterator {name} from position {k} has {} items and differs from a plain pass ({} items left)", rest.len(), n - k)) }
+                    }
+                }
+                Ok(())
+            });
+            let names = || seq.iter().map(|&i| OPS[i]).collect::<Vec<_>>().join(">");
+            match r { Ok(Ok(())) => {}, Ok(Err(d)) => out.fails.push(("C04.seq.iter", ty, names(), d)), Err(p) => out.fails.push(("C04.seq.panic", ty, names(), p)) }
+        }
+    }
+}
+
+fn fold_hash<T: AsRef<[u8]>>(items: impl Iterator<Item = T>) -> String {
+    let (mut n, mut h) = (0u64, 0xcbf29ce484222325u64);
+    for i in items { n += 1; for b in i.as_ref() { h ^= *b as u64; h = h.wrapping_mul(0x100000001b3) } h = h.rotate_left(7) }
+    format!("{n} items #{h:016x}")
+}
+
+/// The sequence space for one (seed, entry point). Returns false if the seed does not decode here.
+fn seq_run(env: &Env, ep: Ep, bytes: &[u8], thorough: bool, out: &mut SeqOut) -> bool {
+    let strict_mode = ep.mode() != "relaxed";
+    let cap = bytes.len();
+    let maxlen_for = |m: usize| if thorough && (m as u64).pow(4) <= 40_000 { 4 } else { 3 };
+    let il = if thorough { 4 } else { 3 };
+    let t = t0();
+    let ok_class = |r: Result<String, String>| match r { Ok(s) => format!("ok {s}"), Err(e) => format!("err {}", err_class(&e)) };
+    match ep {
+        Ep::Crl => {
+            let fresh = || Crl::decode(bytes).ok();
+            let Some(p) = fresh() else { return false };
+            let serials: Vec<Serial> = p.revoked_certs().iter().take(cap + 1).map(|e| e.user_certificate).collect();
+            let probe = |k: usize| serials.get(k).copied();
+            let mut probes: Vec<(&'static str, Serial)> = Vec::new();
+            if let Some(s) = probe(0) { probes.push(("contains(first)", s)) }
+            if let Some(s) = probe(serials.len() / 2) { probes.push(("contains(middle)", s)) }
+            if let Some(s) = serials.last() { probes.push(("contains(last)", *s)) }
+            probes.push(("contains(0)", Serial::from(0u64)));
+            probes.push(("contains(2^127-1)", Serial::from(u128::MAX >> 1)));
+            let mut meths: Vec<Meth<Crl>> = vec![meth("cache_serials", |c: &mut Crl| { c.cache_serials(); "()".into() })];
+            for (name, s) in probes.clone() { meths.push(meth(name, move |c: &mut Crl| c.contains(s).to_string())) }
+            if let Some(s) = probe(serials.len() / 2) { meths.push(meth("revoked_certs.contains(middle)", move |c: &mut Crl| c.revoked_certs().contains(s).to_string())) }
+            meths.push(meth("iter", |c: &mut Crl| fold_hash(c.revoked_certs().iter().map(|e| e.user_certificate.into_array()))));
+            meths.push(meth("to_captured", |c: &mut Crl| fold_hash(std::iter::once(c.to_captured().into_bytes()))));
+            meths.push(meth("clone", |c: &mut Crl| { *c = c.clone(); "()".into() }));
+            meths.push(meth("serde", |c: &mut Crl| match serde_json::to_string(c).map_err(|e| e.to_string()).and_then(|s| serde_json::from_str::<Crl>(&s).map_err(|e| e.to_string())) { Ok(x) => { *c = x; "replaced".into() }, Err(e) => format!("err {}", err_class(&e)) }));
+            let first = probes[0].1;
+            meths.push(meth("CrlStore(caching).push+get+contains", move |c: &mut Crl| { let mut st = CrlStore::new(); st.enable_serial_caching(); let u = rsync("rsync://example.net/repo/ca/ca.crl"); st.push(u.clone(), c.clone()); st.get(&u).map(|x| x.contains(first)).unwrap_or(false).to_string() }));
+            meths.push(meth("CrlStore.push+get+contains", move |c: &mut Crl| { let mut st = CrlStore::new(); let u = rsync("rsync://example.net/repo/ca/ca.crl"); st.push(u.clone(), c.clone()); st.get(&u).map(|x| x.contains(first)).unwrap_or(false).to_string() }));
+            seq_drive("Crl", &fresh, &meths, maxlen_for(meths.len()), out);
+            iter_seqs("RevokedCertificates::iter", &|| p.revoked_certs().iter(), &|e: CrlEntry| format!("{} {}", e.user_certificate, e.revocation_date.timestamp()), cap, il, out);
+        }
+        Ep::MftS | Ep::MftR => {
+            let fresh = || Manifest::decode(bytes, strict_mode).ok();
+            let Some(p) = fresh() else { return false };
+            let mut meths: Vec<Meth<Manifest>> = vec![
+                meth("len", |m: &mut Manifest| format!("{} {}", m.len(), m.is_empty())),
+                meth("iter", |m: &mut Manifest| fold_hash(m.iter().map(|f| { let (a, b) = f.into_pair(); [a.as_ref(), b.as_ref()].concat() }))),
+                meth("iter_uris", |m: &mut Manifest| fold_hash(m.iter_uris(&env.base).map(|(u, h)| [u.as_str().as_bytes(), h.as_slice()].concat()))),
+                meth("content.clone.iter", |m: &mut Manifest| fold_hash(m.content().clone().iter().map(|f| f.file().to_vec()))),
+                meth("numbers", |m: &mut Manifest| format!("{} {} {}", m.manifest_number(), m.this_update().timestamp(), m.next_update().timestamp())),
+                meth("clone", |m: &mut Manifest| { *m = m.clone(); "()".into() }),
+            ];
+            for (j, (issuer, ti)) in env.issuers.iter().enumerate() {
+                if j > 0 && p.cert().verify_issuer_claim(issuer, false).is_err() { continue }
+                for strict in [false, true] {
+                    let ti = *ti;
+                    meths.push(meth(if strict { "validate_at(strict)" } else { "validate_at(lenient)" }, move |m: &mut Manifest| ok_class(m.clone().validate_at(issuer, strict, ti).map(|(rc, c)| format!("{} {}", rc.v4_resources().iter().count(), fold_hash(c.iter().map(|f| f.file().to_vec())))).map_err(|e| e.to_string()))));
+                }
+            }
+            if strict_mode {
+                meths.push(meth("to_captured", |m: &mut Manifest| fold_hash(std::iter::once(m.to_captured().into_bytes()))));
+                meths.push(meth("serde", |m: &mut Manifest| match serde_json::to_string(m).map_err(|e| e.to_string()).and_then(|s| serde_json::from_str::<Manifest>(&s).map_err(|e| e.to_string())) { Ok(x) => { *m = x; "replaced".into() }, Err(e) => format!("err {}", err_class(&e)) }));
+            }
+            seq_drive("Manifest", &fresh, &meths, maxlen_for(meths.len()), out);
+            iter_seqs("ManifestContent::iter", &|| p.iter(), &|f| format!("{} {}", hex(f.file()), hex(f.hash())), cap, il, out);
+            iter_seqs("ManifestContent::iter_uris", &|| p.iter_uris(&env.base), &|(u, h)| format!("{} {}", u, hex(h.as_slice())), cap, il, out);
+        }
+        Ep::RoaS | Ep::RoaR => {
+            let fresh = || Roa::decode(bytes, strict_mode).ok();
+            let Some(p) = fresh() else { return false };
+            let mut meths: Vec<Meth<Roa>> = vec![
+                meth("content.iter", |r: &mut Roa| fold_hash(r.content().iter().map(|f| f.to_string()))),
+                meth("v4_addrs", |r: &mut Roa| fold_hash(r.content().v4_addrs().iter().map(|a| format!("{:?}{:?}", a.range(), a.max_length())))),
+                meth("v6_addrs", |r: &mut Roa| fold_hash(r.content().v6_addrs().iter().map(|a| format!("{:?}{:?}", a.range(), a.max_length())))),
+                meth("iter_origins", |r: &mut Roa| fold_hash(r.content().iter_origins().map(|o| format!("{o:?}")))),
+                meth("clone", |r: &mut Roa| { *r = r.clone(); "()".into() }),
+            ];
+            for (j, (issuer, _)) in env.issuers.iter().enumerate() {
+                if j > 0 && p.cert().verify_issuer_claim(issuer, false).is_err() { continue }
+                for strict in [false, true] {
+                    meths.push(meth(if strict { "process(strict)" } else { "process(lenient)" }, move |r: &mut Roa| ok_class(r.clone().process(issuer, strict, |_| Ok(())).map(|(rc, c)| format!("{} {}", rc.v4_resources().iter().count(), fold_hash(c.iter().map(|f| f.to_string())))).map_err(|e| e.to_string()))));
+                }
+            }
+            if strict_mode {
+                meths.push(meth("to_captured", |r: &mut Roa| fold_hash(std::iter::once(r.to_captured().into_bytes()))));
+                meths.push(meth("serde", |r: &mut Roa| match serde_json::to_string(r).map_err(|e| e.to_string()).and_then(|s| serde_json::from_str::<Roa>(&s).map_err(|e| e.to_string())) { Ok(x) => { *r = x; "replaced".into() }, Err(e) => format!("err {}", err_class(&e)) }));
+            }
+            seq_drive("Roa", &fresh, &meths, maxlen_for(meths.len()), out);
+            iter_seqs("RoaIpAddresses::iter(v4)", &|| p.content().v4_addrs().iter(), &|a| format!("{:?} {:?}", a.range(), a.max_length()), cap, il, out);
+            iter_seqs("RoaIpAddresses::iter(v6)", &|| p.content().v6_addrs().iter(), &|a| format!("{:?} {:?}", a.range(), a.max_length()), cap, il, out);
+            iter_seqs("RouteOriginAttestation::iter", &|| p.content().iter(), &|f| f.to_string(), cap, il, out);
+            iter_seqs("RouteOriginAttestation::iter_origins", &|| p.content().iter_origins(), &|o| format!("{o:?}"), cap, il, out);
+        }
+        Ep::AspaS | Ep::AspaR => {
+            let fresh = || Aspa::decode(bytes, strict_mode).ok();
+            let Some(p) = fresh() else { return false };
+            let mut meths: Vec<Meth<Aspa>> = vec![
+                meth("providers.iter", |a: &mut Aspa| fold_hash(a.content().provider_as_set().iter().map(|x| x.into_u32().to_be_bytes()))),
+                meth("providers.to_set", |a: &mut Aspa| { let s = a.content().provider_as_set().to_set(); format!("{} {} {}", s.len(), s.contains(Asn::from_u32(64497)), fold_hash(s.iter().map(|x| x.into_u32().to_be_bytes()))) }),
+                meth("as_resources", |a: &mut Aspa| format!("{} {}", a.content().customer_as(), a.content().as_resources())),
+                meth("clone", |a: &mut Aspa| { *a = a.clone(); "()".into() }),
+            ];
+            for (j, (issuer, _)) in env.issuers.iter().enumerate() {
+                if j > 0 && p.cert().verify_issuer_claim(issuer, false).is_err() { continue }
+                for strict in [false, true] {
+                    meths.push(meth(if strict { "process(strict)" } else { "process(lenient)" }, move |a: &mut Aspa| ok_class(a.clone().process(issuer, strict, |_| Ok(())).map(|(rc, c)| format!("{} {}", rc.as_resources().iter().count(), c.provider_as_set().len())).map_err(|e| e.to_string()))));
+                }
+            }
+            if strict_mode {
+                meths.push(meth("to_captured", |a: &mut Aspa| fold_hash(std::iter::once(a.to_captured().into_bytes()))));
+                meths.push(meth("serde", |a: &mut Aspa| match serde_json::to_string(a).map_err(|e| e.to_string()).and_then(|s| serde_json::from_str::<Aspa>(&s).map_err(|e| e.to_string())) { Ok(x) => { *a = x; "replaced".into() }, Err(e) => format!("err {}", err_class(&e)) }));
+            }
+            seq_drive("Aspa", &fresh, &meths, maxlen_for(meths.len()), out);
+            iter_seqs("ProviderAsSet::iter", &|| p.content().provider_as_set().iter(), &|x| x.to_string(), cap, il, out);
+            let set = p.content().provider_as_set().to_set();
+            iter_seqs("SmallAsnSet::iter", &|| set.iter(), &|x| x.to_string(), cap, il, out);
+        }
+        Ep::Cert => {
+            let fresh = || Cert::decode(bytes).ok();
+            let Some(p) = fresh() else { return false };
+            let mut meths: Vec<Meth<Cert>> = vec![
+                meth("to_captured", |c: &mut Cert| fold_hash(std::iter::once(c.to_captured().into_bytes()))),
+                meth("resources", |c: &mut Cert| format!("{:?} {:?} {:?}", c.v4_resources().to_blocks().map(|b| b.as_v4().to_string()).ok(), c.v6_resources().to_blocks().map(|b| b.as_v6().to_string()).ok(), c.as_resources().to_blocks().map(|b| b.to_string()).ok())),
+                meth("inspect", |c: &mut Cert| format!("{} {} {} {}", c.inspect_ta(true).is_ok(), c.inspect_ca(true).is_ok(), c.inspect_ee(true).is_ok(), c.inspect_detached_ee(true).is_ok())),
+                meth("clone", |c: &mut Cert| { *c = c.clone(); "()".into() }),
+                meth("serde", |c: &mut Cert| match serde_json::to_string(c).map_err(|e| e.to_string()).and_then(|s| serde_json::from_str::<Cert>(&s).map_err(|e| e.to_string())) { Ok(x) => { *c = x; "replaced".into() }, Err(e) => format!("err {}", err_class(&e)) }),
+                meth("validate_ta_at", move |c: &mut Cert| ok_class(c.clone().validate_ta_at(pki::tal(), false, t).map(|rc| format!("{} {}", rc.v4_resources().as_v4(), rc.as_resources())).map_err(|e| e.to_string()))),
+            ];
+            for (j, (issuer, ti)) in env.issuers.iter().enumerate() {
+                if p.verify_issuer_claim(issuer, false).is_err() { continue }
+                let _ = j; let ti = *ti;
+                meths.push(meth("validate_ca_at", move |c: &mut Cert| ok_class(c.clone().validate_ca_at(issuer, false, ti).map(|rc| format!("{} {}", rc.v4_resources().as_v4(), rc.as_resources())).map_err(|e| e.to_string()))));
+                meths.push(meth("validate_ee_at", move |c: &mut Cert| ok_class(c.clone().validate_ee_at(issuer, false, ti).map(|rc| format!("{} {}", rc.v4_resources().as_v4(), rc.as_resources())).map_err(|e| e.to_string()))));
+                meths.push(meth("validate_router_at", move |c: &mut Cert| ok_class(c.validate_router_at(issuer, false, ti).map(|_| String::new()).map_err(|e| e.to_string()))));
+            }
+            seq_drive("Cert", &fresh, &meths, maxlen_for(meths.len()), out);
+            if let Ok(b) = p.v4_resources().to_blocks() { iter_seqs("IpBlocks::iter", &|| b.iter(), &|x| x.display_v4().to_string(), cap, il, out) }
+            if let Ok(b) = p.v6_resources().to_blocks() { iter_seqs("IpBlocks::iter", &|| b.iter(), &|x| x.display_v6().to_string(), cap, il, out) }
+            if let Ok(b) = p.as_resources().to_blocks() {
+                iter_seqs("AsBlocks::iter", &|| b.iter(), &|x| x.to_string(), cap, il, out);
+                iter_seqs("AsBlocks::iter_asns", &|| b.iter_asns().take(40), &|x| x.to_string(), 40, il, out);
+            }
+        }
+        Ep::Tal => {
+            let fresh = || { let mut rd = bytes; Tal::read_named("c04".into(), &mut rd).ok() };
+            let Some(p) = fresh() else { return false };
+            let meths: Vec<Meth<Tal>> = vec![
+                meth_state("prefer_https", |t: &mut Tal| { t.prefer_https(); "()".into() }),
+                meth_state("uris (in order)", |t: &mut Tal| fold_hash(t.uris().map(|u| u.as_str().to_string()))),
+                meth("uris (as a set)", |t: &mut Tal| { let mut v: Vec<String> = t.uris().map(|u| u.as_str().to_string()).collect(); v.sort(); fold_hash(v.into_iter()) }),
+                meth("key_info", |t: &mut Tal| t.key_info().key_identifier().to_string()),
+                meth("clone", |t: &mut Tal| { *t = t.clone(); "()".into() }),
+            ];
+            seq_drive("Tal", &fresh, &meths, maxlen_for(meths.len()), out);
+            iter_seqs("Tal::uris", &|| p.uris(), &|u| u.as_str().to_string(), cap, il, out);
+        }
+        Ep::AsText => {
+            let Ok(text) = std::str::from_utf8(bytes) else { return false };
+            let fresh = || AsBlocks::from_str(text).ok().map(|b| (b, Vec::<AsBlocks>::new()));
+            let Some((p, _)) = fresh() else { return false };
+            let other = env.issuers[1].0.as_resources().clone();
+            let show = |b: &AsBlocks| b.to_string();
+            let (o1, o2, o3) = (other.clone(), other.clone(), other.clone());
+            let meths: Vec<Meth<(AsBlocks, Vec<AsBlocks>)>> = vec![
+                meth_state("intersection_assign(other)", move |s| { s.0.intersection_assign(&o1); show(&s.0) }),
+                meth_state("intersection_assign(self)", move |s| { let c = s.0.clone(); s.0.intersection_assign(&c); show(&s.0) }),
+                meth_state("union(other)", move |s| { s.0 = s.0.union(&o2); show(&s.0) }),
+                meth_state("difference(other)", move |s| { s.0 = s.0.difference(&o3); show(&s.0) }),
+                meth_state("reparse", move |s| { if let Ok(b) = AsBlocks::from_str(&s.0.to_string()) { s.0 = b } show(&s.0) }),
+                meth_state("hold a clone", move |s| { s.1.push(s.0.clone()); s.1.len().to_string() }),
+                meth_state("drop a clone", move |s| { s.1.pop(); s.1.len().to_string() }),
+                meth_state("held clones unchanged?", move |s| s.1.iter().map(show).collect::<Vec<_>>().join("|")),
+            ];
+            seq_drive("AsBlocks", &fresh, &meths, maxlen_for(meths.len()), out);
+            iter_seqs("AsBlocks::iter", &|| p.iter(), &|x| x.to_string(), cap, il, out);
+            iter_seqs("AsBlocks::iter_asns", &|| p.iter_asns().take(40), &|x| x.to_string(), 40, il, out);
+            if let Some(first) = p.iter().next() { iter_seqs("AsBlock::iter", &|| first.iter().take(40), &|x| x.to_string(), 40, il, out) }
+        }
+        Ep::IpText => {
+            let Ok(text) = std::str::from_utf8(bytes) else { return false };
+            let v4 = !text.contains(':');
+            let fresh = || IpBlocks::from_str(text).ok().map(|b| (b, Vec::<IpBlocks>::new()));
+            let Some((p, _)) = fresh() else { return false };
+            let other = if v4 { env.issuers[1].0.v4_resources().clone() } else { env.issuers[1].0.v6_resources().clone() };
+            let show = move |b: &IpBlocks| if v4 { b.as_v4().to_string() } else { b.as_v6().to_string() };
+            let (o1, o2, o3) = (other.clone(), other.clone(), other.clone());
+            let meths: Vec<Meth<(IpBlocks, Vec<IpBlocks>)>> = vec![
+                meth_state("intersection_assign(other)", move |s| { s.0.intersection_assign(&o1); show(&s.0) }),
+                meth_state("intersection_assign(self)", move |s| { let c = s.0.clone(); s.0.intersection_assign(&c); show(&s.0) }),
+                meth_state("union(other)", move |s| { s.0 = s.0.union(&o2); show(&s.0) }),
+                meth_state("difference(other)", move |s| { s.0 = s.0.difference(&o3); show(&s.0) }),
+                meth_state("reparse", move |s| { if let Ok(b) = IpBlocks::from_str(&show(&s.0)) { s.0 = b } show(&s.0) }),
+                meth_state("hold a clone", move |s| { s.1.push(s.0.clone()); s.1.len().to_string() }),
+                meth_state("drop a clone", move |s| { s.1.pop(); s.1.len().to_string() }),
+                meth_state("held clones unchanged?", move |s| s.1.iter().map(show).collect::<Vec<_>>().join("|")),
+            ];
+            seq_drive("IpBlocks", &fresh, &meths, maxlen_for(meths.len()), out);
+            iter_seqs("IpBlocks::iter", &|| p.iter(), &|x| if v4 { x.display_v4().to_string() } else { x.display_v6().to_string() }, cap, il, out);
+        }
+        Ep::RtaS | Ep::RtaR => {
+            let Some(p) = rta::Rta::decode(bytes, strict_mode).ok() else { return false };
+            // the validation object: every sequence (with repetition) of up to three supply calls
+            // from {supply_tal, supply_ca(each fixed issuer)}, finalize after every prefix
+            let k = env.issuers.len() + 1;
+            let maxlen = if thorough { 4 } else { 3 };
+            for strict in [false, true] {
+                let v0 = match guard(|| rta::Validation::new_at(&p, strict, t)) {
+                    Err(pn) => { out.fails.push(("C04.seq.panic", "rta::Validation", "new_at".into(), pn)); continue }
+                    Ok(Err(e)) => { *out.outcomes.entry(format!("rta::Validation: new_at -> err {}", obs_class(&e.to_string()))).or_insert(0) += 1; out.evals += 1; continue }
+                    Ok(Ok(v)) => v,
+                };
+                *out.outcomes.entry("rta::Validation: new_at -> ok".into()).or_insert(0) += 1;
+                for len in 0..=maxlen {
+                    for code in 0..(k as u64).pow(len as u32) {
+                        let mut seq = Vec::with_capacity(len);
+                        let mut c = code;
+                        for _ in 0..len { seq.push((c % k as u64) as usize); c /= k as u64 }
+                        out.evals += 1;
+                        if len > 0 { out.nontrivial += 1 }
+                        let name = |a: usize| if a == 0 { "supply_tal".to_string() } else { format!("supply_ca(issuer{})", a - 1) };
+                        let names = |upto: usize, last: &str| std::iter::once(format!("new_at({})", if strict { "strict" } else { "lenient" })).chain(seq[..upto].iter().map(|&a| name(a))).chain(std::iter::once(last.to_string())).collect::<Vec<_>>().join(">");
+                        let mut v = v0.clone();
+                        let mut broken = false;
+                        for (i, &a) in seq.iter().enumerate() {
+                            let r = guard(|| if a == 0 { env.tal.as_ref().map(|tal| v.supply_tal(tal).map_err(|e| e.to_string())) } else { Some(v.supply_ca(&env.issuers[a - 1].0).map_err(|e| e.to_string())) });
+                            match r {
+                                Err(pn) => { out.fails.push(("C04.seq.panic", "rta::Validation", names(i, &name(a)), pn)); broken = true; break }
+                                Ok(Some(Err(_))) => break,      // an error ends the use of the object
+                                Ok(_) => {}
+                            }
+                        }
+                        if broken { continue }
+                        match guard(|| v.finalize().map(|c| c.subject_keys().len())) {
+                            Err(pn) => out.fails.push(("C04.seq.panic", "rta::Validation", names(len, "finalize"), pn)),
+                            Ok(Ok(_)) => *out.outcomes.entry("rta::Validation: finalize -> ok".into()).or_insert(0) += 1,
+                            Ok(Err(e)) => *out.outcomes.entry(format!("rta::Validation: finalize -> err {}", obs_class(&e.to_string()))).or_insert(0) += 1,
+                        }
+                    }
+                }
+            }
+            let mut meths: Vec<Meth<rta::Rta>> = vec![
+                meth("content", |r: &mut rta::Rta| format!("{} {} {} {}", r.content().subject_keys().len(), r.v4_resources().as_v4(), r.v6_resources().as_v6(), r.as_resources())),
+                meth("clone", |r: &mut rta::Rta| { *r = r.clone(); "()".into() }),
+                meth("Validation::new_at", move |r: &mut rta::Rta| ok_class(rta::Validation::new_at(r, false, t).map(|_| String::new()).map_err(|e| e.to_string()))),
+                meth("RtaBuilder::from_rta.finalize", |r: &mut rta::Rta| { *r = rta::RtaBuilder::from_rta(r.clone()).finalize(); "replaced".into() }),
+            ];
+            if strict_mode { meths.push(meth("to_captured", |r: &mut rta::Rta| fold_hash(std::iter::once(r.to_captured().into_bytes())))) }
+            let fresh = || rta::Rta::decode(bytes, strict_mode).ok();
+            seq_drive("Rta", &fresh, &meths, maxlen_for(meths.len()), out);
+            iter_seqs("IpBlocks::iter", &|| p.v4_resources().iter(), &|x| x.display_v4().to_string(), cap, il, out);
+            iter_seqs("AsBlocks::iter", &|| p.as_resources().iter(), &|x| x.to_string(), cap, il, out);
+        }
+        _ => return false,
+    }
+    true
+}
+
 //============ worker ===============================================================
 
 #[derive(Clone, Debug)]
@@ -1909,11 +3062,13 @@ struct TaskResult {
     /// max source calls per input octet, in thousandths
     max_ratio: u64,
     marks: BTreeMap<String, u64>,
+    /// failures of the fixtures (machinery, not verdicts)
+    mach: Vec<String>,
 }
 
 impl TaskResult {
     fn to_json(&self, id: u64) -> String {
-        json!({"id": id, "ev": self.evals, "nt": self.nontrivial, "oc": self.outcomes, "f": self.fails, "s": self.samples, "r": self.max_ratio, "m": self.marks}).to_string()
+        json!({"id": id, "ev": self.evals, "nt": self.nontrivial, "oc": self.outcomes, "f": self.fails, "s": self.samples, "r": self.max_ratio, "m": self.marks, "x": self.mach}).to_string()
     }
     fn from_json(v: &Value) -> Option<(u64, TaskResult)> {
         let mut r = TaskResult { evals: v["ev"].as_u64()?, nontrivial: v["nt"].as_u64()?, max_ratio: v["r"].as_u64()?, ..Default::default() };
@@ -1923,6 +3078,7 @@ impl TaskResult {
         }
         for s in v["s"].as_array()? { r.samples.push(s.as_str()?.to_string()) }
         for (k, n) in v["m"].as_object()? { r.marks.insert(k.clone(), n.as_u64()?); }
+        for x in v["x"].as_array()? { r.mach.push(x.as_str()?.to_string()) }
         Some((v["id"].as_u64()?, r))
     }
     fn merge(&mut self, o: TaskResult) {
@@ -1930,6 +3086,7 @@ impl TaskResult {
         for (k, n) in o.outcomes { *self.outcomes.entry(k).or_insert(0) += n }
         for (k, n) in o.marks { *self.marks.entry(k).or_insert(0) += n }
         self.fails.extend(o.fails);
+        self.mach.extend(o.mach);
         if self.samples.len() < 4 { self.samples.extend(o.samples) }
         self.max_ratio = self.max_ratio.max(o.max_ratio);
     }
@@ -1944,6 +3101,8 @@ struct Worker {
     b2p: HashMap<usize, Arc<PairLists>>,
     b2l: HashMap<usize, Arc<PairLists>>,
     rs: HashMap<usize, Arc<Vec<(u32, Op)>>>,
+    mx_fx: MxFx,
+    mx_cfgs: Option<Arc<Vec<(MxCfg, usize)>>>,
 }
 
 fn witness(ep: Ep, f: &Fail, seed: &str, sp: SpaceId, idx: &str, desc: &str) -> String {
@@ -2067,6 +3226,51 @@ impl Worker {
                     }
                 }
             }
+            SpaceId::Time => {
+                let cases = tm_cases();
+                for idx in t.lo..t.hi.min(cases.len() as u64) {
+                    let case = cases[idx as usize];
+                    let (fails, decoded, evals) = tm_judge(&self.env, case, self.thorough);
+                    res.evals += evals;
+                    if decoded { res.nontrivial += 1 }
+                    let class = if fails.iter().any(|f| f.0 != "C04.time.fixture") { "some operation grows faster than the input or is far slower than on the ordinary object" }
+                        else if decoded { "decoded at every size; every operation near-linear and close to the ordinary object" }
+                        else { "rejected by the decoder; the rejection itself near-linear" };
+                    *res.outcomes.entry(class.to_string()).or_insert(0) += 1;
+                    if idx % 16 == 0 { res.samples.push(format!("{} at n = {:?} against {}", case.desc(), case.sizes(self.thorough), case.control().desc())) }
+                    for (oracle, acc, detail) in fails {
+                        if oracle == "C04.time.fixture" { res.mach.push(format!("time space, {}: {detail}", case.desc())); continue }
+                        let cause = if oracle == "C04.time.panic" { "panic" } else { "bound" };
+                        res.fails.push((oracle.to_string(), format!("mode={};cause={cause} ep={} seed=- sp=time i={idx} case={} acc={}", case.ep().mode(), case.ep().name(), case.desc(), acc.replace(' ', "_")), detail));
+                    }
+                }
+            }
+            SpaceId::RtaMx => {
+                let th = self.thorough;
+                let cfgs = self.mx_cfgs.get_or_insert_with(|| Arc::new(mx_cfgs(th))).clone();
+                for idx in t.lo..t.hi.min(cfgs.len() as u64) {
+                    let (cfg, depth) = &cfgs[idx as usize];
+                    mx_run(&self.env, &mut self.mx_fx, idx, cfg, *depth, &mut res);
+                    if idx % 4096 == 0 { res.samples.push(format!("({}) x new_at lenient/strict x every order of up to {depth} supply calls, finalize after each", cfg.desc())) }
+                }
+            }
+            SpaceId::Seq => {
+                let s = &self.env.seeds[t.seed];
+                let mut out = SeqOut::default();
+                let decoded = match guard(|| seq_run(&self.env, t.ep, &s.bytes, self.thorough, &mut out)) {
+                    Ok(d) => d,
+                    Err(p) => { out.fails.push(("C04.seq.panic", "setup", "decode and first accessors".into(), p)); true }
+                };
+                res.evals += out.evals.max(1);
+                res.nontrivial += out.nontrivial;
+                for (k, n) in out.outcomes { *res.outcomes.entry(k).or_insert(0) += n }
+                *res.outcomes.entry(if decoded { "object decodes: sequences run" } else { "object does not decode here: nothing to call" }.to_string()).or_insert(0) += 1;
+                if decoded && t.seed % 8 == 0 { res.samples.push(format!("{} via {}/{}: {} call sequences", s.name, t.ep.name(), t.ep.mode(), out.evals)) }
+                for (oracle, ty, calls, detail) in out.fails {
+                    let cause = if oracle == "C04.seq.panic" { if detail.contains("incompatible mode") { "captured-mode" } else { "panic" } } else { "bound" };
+                    res.fails.push((oracle.to_string(), format!("mode={};cause={cause} ep={} seed={} sp=seq i=0 case={} acc={}", t.ep.mode(), t.ep.name(), s.name, calls.replace(' ', "_"), ty.replace(' ', "_")), detail));
+                }
+            }
             SpaceId::SelfTest => {
                 for idx in t.lo..t.hi {
                     res.evals += 1;
@@ -2106,7 +3310,7 @@ fn worker_main(thorough: bool) -> ! {
         Ok(e) => e,
         Err(p) => { println!("{}", json!({"fatal": format!("worker could not build its environment: {p}")})); std::process::exit(3) }
     };
-    let mut w = Worker { env, thorough, b1: HashMap::new(), b2p: HashMap::new(), b2l: HashMap::new(), rs: HashMap::new() };
+    let mut w = Worker { env, thorough, b1: HashMap::new(), b2p: HashMap::new(), b2l: HashMap::new(), rs: HashMap::new(), mx_fx: MxFx::default(), mx_cfgs: None };
     println!("{}", json!({"ready": true, "seeds": w.env.seeds.len()}));
     let stdin = std::io::stdin();
     let mut line = String::new();
@@ -2425,6 +3629,9 @@ fn describe_case(env: &Env, thorough: bool, t: &Task) -> (String, String, Vec<u8
             }
         }
         SpaceId::SelfTest => ("selftest".into(), format!("kind={}", t.seed), vec![]),
+        SpaceId::Time => ("-".into(), tm_cases().get(idx as usize).map(|c| c.desc()).unwrap_or_else(|| "out of range".into()), vec![]),
+        SpaceId::RtaMx => ("-".into(), mx_cfgs(thorough).get(idx as usize).map(|(c, _)| c.desc()).unwrap_or_else(|| "out of range".into()), vec![]),
+        SpaceId::Seq => { let s = &env.seeds[t.seed]; (s.name.clone(), "call sequences".into(), s.bytes.clone()) }
     }
 }
 
@@ -2514,7 +3721,7 @@ fn main() {
             let ep = *ALL_EPS.iter().find(|e| e.name() == epn && e.mode() == mode)?;
             let seed = match spid {
                 SpaceId::Rs => env.rs.iter().position(|s| s.name == seedn)?,
-                SpaceId::Str => 0,
+                SpaceId::Str | SpaceId::Time | SpaceId::RtaMx => 0,
                 SpaceId::SelfTest => return None,
                 _ => env.seeds.iter().position(|s| s.name == seedn)?,
             };
@@ -2542,6 +3749,15 @@ fn main() {
     let mut plan = Plan { tasks: Vec::new(), next_id: 0 };
     // worker self-test: the machinery must find a planted abort / OOM / hang / stack overflow
     for kind in 0..4usize { plan.add_range(SpaceId::SelfTest, kind, Ep::Cert, 64, 64) }
+    // the time clause first (its cases are the longest single tasks), then the RTA matrix and the call sequences
+    plan.add_range(SpaceId::Time, 0, Ep::Crl, tm_cases().len() as u64, 1);
+    let n_mx = mx_cfgs(thorough).len() as u64;
+    plan.add_range(SpaceId::RtaMx, 0, Ep::RtaS, n_mx, 192);
+    let seq_eps = |k: Kind| -> &'static [Ep] { match k {
+        Kind::Cert => &[Ep::Cert], Kind::Crl => &[Ep::Crl], Kind::Mft => &[Ep::MftS, Ep::MftR], Kind::Roa => &[Ep::RoaS, Ep::RoaR], Kind::Aspa => &[Ep::AspaS, Ep::AspaR],
+        Kind::Rta => &[Ep::RtaS, Ep::RtaR], Kind::Tal => &[Ep::Tal], Kind::AsText => &[Ep::AsText], Kind::IpText => &[Ep::IpText], _ => &[] } };
+    let seq_seed = |s: &Seed| !s.no_mutate || ["/00003-", "/00040-", "/00257-", "scale/17-blocks-ca", "scale/17-blocks-middle"].iter().any(|p| s.name.contains(p));
+    for (i, s) in env.seeds.iter().enumerate() { if seq_seed(s) { for &ep in seq_eps(s.kind) { plan.add_range(SpaceId::Seq, i, ep, 1, 1) } } }
     // objects with a space of their own (first, so that a stall overlaps with the rest)
     for (i, s) in env.seeds.iter().enumerate() { if s.own_space { for &ep in eps_for(s.kind) { plan.add_range(SpaceId::Own, i, ep, 1, 1) } } }
     // re-signed
@@ -2629,6 +3845,7 @@ fn main() {
     let mut fails: Vec<(String, String, String)> = Vec::new();
     for (t, mut r) in results {
         fails.append(&mut r.fails);
+        for m in r.mach.drain(..) { ctx.machinery_error(m) }
         per.entry(t.sp).or_default().merge(r);
     }
     let seed_json: Vec<Value> = env.seeds.iter().enumerate().map(|(i, s)| json!({
@@ -2709,6 +3926,24 @@ fn main() {
             "one hand-built object: an RTA that embeds two CA certificates naming (and signing) each other as issuer, each with its CRL and inherited resources, and a detached EE certificate under one of them that signs the attestation; decoded strict and relaxed and swept (rta::Validation::new_at must return); non-trivial = both runs",
             true, "1 object x 2 modes", Some(2));
         if hung > 0 { sp.evals(hung); for ep in hung_eps { sp.outcome(&format!("worker stalled in the sweep [{}/{}]", ep.name(), ep.mode())) } }
+    }
+    {
+        let cases = tm_cases();
+        let sp = finish_space(SpaceId::Time, "time.growth",
+            &format!("the time clause, measured as CPU time of the calling thread (clock_gettime(CLOCK_THREAD_CPUTIME_ID), best of three runs): for every crafted family the object is built with n elements for each n of a 1:4 ladder (1 024, 4 096, 16 384; CRLs also 65 536; thorough one step further) next to an ordinary object of the same kind, size and count, and the decode and every accessor are timed one by one. Families: resource block lists of n disjoint blocks (IPv4 /24, IPv6 /56, AS ranges) in descending, even-then-odd, zigzag, highest-first, stride-permuted, adjacent-descending and overlapping-descending order through every way in: FromStr, Deserialize, DER take_from, FromIterator, the builders, ResourceSet::from_strs, the three extensions of a certificate (then validate_ca_at), the attested resources of an RTA (then rta::Validation); set operations on two lists that interleave / are identical / nest / one covers all; CRLs whose n serial numbers are equal in all octets but a four-octet window at offset 1, 4, 8, 12 or 16 (rest 00 or A5) with decode, iteration, lookups without cache, cache_serials, n cached lookups of listed and of unlisted serials of the same family, CrlStore with caching, re-encoding, serde; manifests whose n names share a 48-octet prefix / suffix, are all equal, or whose hashes are all equal; ASPAs whose providers are multiples of 2^16 / 2^8, consecutive, descending or share their high octets; ROAs with n prefixes descending, zigzag, all equal, one address at every length, and n prefixes under an EE certificate with n blocks. Oracles: C04.time.growth = an operation takes more than {}x the time for 4x the size AND more than {} ms above linear growth (for the crafted and for the ordinary object); C04.time.vs_control = more than {}x the ordinary object of the same size AND more than {} ms above it; C04.time.panic. Non-trivial = crafted families that decode at the largest size",
+                TM_GROWTH, TM_MARGIN_NS / 1_000_000, TM_VS_CONTROL, TM_MARGIN_NS / 1_000_000),
+            true, &format!("{} crafted families x the size ladder x every accessor of the type", cases.len()), None);
+        sp.set("families", json!(cases.iter().map(|c| c.desc()).collect::<Vec<_>>()));
+        let cfgs = mx_cfgs(thorough);
+        let sp = finish_space(SpaceId::RtaMx, "rta.validation.matrix",
+            "freshly built RTAs over a chain TA -> d CA certificates -> EE certificate, d = 0..3: the EE certificate claims each of its three families as inherit / blocks / absent (d <= 1, thorough d <= 2: also blocks wider than any CA holds), every CA certificate each family as inherit / blocks (quick d = 3: all three alike), blocks nested from level to level; the lowest 0..d+1 issuers travel inside the RTA with their CRLs, the rest is supplied; overclaim policy refuse / trim / trim on the EE only; one or two signers (the second EE certificate swaps inherit and blocks); the attestation lists exactly what the model says the signers hold, or one block more. Each is decoded, Validation::new_at is run lenient and strict, and from there EVERY order of the d + 2 possible calls {supply_tal, supply_ca(TA), supply_ca(CA1..d)} is walked as a tree (beyond d = 1, thorough d = 2: the first three calls), with finalize on a copy at every node. Oracle C04.rta.validation.panic: no call panics (hangs and aborts end the worker and are reported as such). Non-trivial = configurations in which some call order ends in a valid attestation",
+            true, &format!("{} configurations x 2 validation modes x all call orders", cfgs.len()), None);
+        if per.get(&SpaceId::RtaMx).map(|r| r.nontrivial).unwrap_or(0) == 0 { ctx.machinery_error("rta.validation.matrix: no configuration validates; the fixtures are wrong") }
+        sp.set("configurations_by_depth", json!((0..=3usize).map(|d| cfgs.iter().filter(|(c, _)| c.d == d).count()).collect::<Vec<_>>()));
+        finish_space(SpaceId::Seq, "accessor.sequences",
+            &format!("for every seed that decodes (all test-data and fresh objects; of the count/scale objects those with 3, 40 and 257 entries and the 17-block ones) and every entry point of its type: ALL sequences of 1..={} calls (thorough: 4 where the alphabet allows) over the type's methods, each sequence on a freshly decoded object — Crl: cache_serials, contains(first/middle/last/0/2^127-1), revoked_certs().contains, iter, to_captured, clone, serde round trip, CrlStore with and without caching; Manifest/Roa/Aspa: the list accessors, validate_at / process (lenient and strict, every issuer the object names plus one it does not) on a clone followed by the accessors of what it returns, clone, and after a strict decode to_captured and serde; Cert: validate_{{ta,ca,ee,router}}_at, inspect, resources, re-encode, serde; Tal: prefer_https, uris; block lists from text: intersection_assign / union / difference / reparse with live clones held and dropped; Rta: Validation::new_at then all sequences with repetition of supply_tal / supply_ca(each fixed issuer) with finalize after each, RtaBuilder::from_rta. For every iterator the objects hand out (revocation entries, file lists, URIs, prefixes, origins, providers, blocks, ASNs, TAL URIs) two live iterators are advanced in every interleaving of up to {} steps from {{a.next, b.next, a.nth(1), a.size_hint, a.count, a.last}} and must give the items of one plain pass. Oracles: C04.seq.panic; C04.seq.same_answer (a pure accessor answers as it does as the first call on a fresh object); C04.seq.iter. Non-trivial = sequences of at least two calls",
+                3, 3),
+            true, "all call sequences up to the stated length on every decodable seed", None);
     }
     finish_space(SpaceId::Str, "strings.short",
         &format!("all octet strings of length 0..={max_len} into each of the 21 entry point/mode combinations (non-UTF-8 strings cannot be passed to the two FromStr decoders and count as rejected); every (string, entry point) pair is distinct and counted as non-trivial"),
